@@ -33,18 +33,10 @@ Proof.
   cbn [join]. destruct l; [exact Ha|]. intro E. apply app_eq_nil in E as [E _]. exact (Ha E).
 Qed.
 
-Definition no_sq (w : str) : bool := negb (existsb (N.eqb SQ) w).
-
-Lemma reread_no_sq w : no_sq w = true -> reread w = w.
-Proof.
-  unfold no_sq. rewrite negb_true_iff. intro H. destruct w as [|c t]; [reflexivity|].
-  apply reread_plain; [exact H|discriminate].
-Qed.
-
-Lemma map_reread_no_sq ws : forallb no_sq ws = true -> map reread ws = ws.
+Lemma map_reread_clean ws : forallb clean ws = true -> map reread ws = ws.
 Proof.
   induction ws as [|w ws IH]; intro H; [reflexivity|].
-  cbn [forallb] in H. apply andb_true_iff in H as [Hw Hs]. cbn [map]. rewrite reread_no_sq, IH; auto.
+  cbn [forallb] in H. apply andb_true_iff in H as [Hw Hs]. cbn [map]. rewrite reread_clean, IH; auto.
 Qed.
 
 (* ================================================================== the glue: a correct extraction cannot launder *)
@@ -85,21 +77,21 @@ Section Glue.
   Qed.
 
   (* if what the handler extracted is what the tool executes, nothing is laundered - for inner
-     commands without a single quote the ladder sees exactly the executed words *)
+     commands whose words are clean (no dollar sign right before a quote) the ladder sees exactly the executed words *)
   Lemma no_launder_of_extract (h : hres) (inners : list (list str)) r :
     h = HWords inners r -> Forall (fun c => c <> []) inners ->
-    forall c, In c inners -> forallb no_sq c = true -> vle (judge r c) (hverdict astr h) = true.
+    forall c, In c inners -> forallb clean c = true -> vle (judge r c) (hverdict astr h) = true.
   Proof.
-    intros -> Hall c Hin Hq. rewrite <- (map_reread_no_sq c Hq) at 1.
+    intros -> Hall c Hin Hq. rewrite <- (map_reread_clean c Hq) at 1.
     apply extracted_never_laundered; assumption.
   Qed.
 
   (* exactness for a single inner command *)
   Lemma exact_of_extract (h : hres) (c : list str) r :
-    h = HWords [c] r -> c <> [] -> forallb no_sq c = true -> hverdict astr h = judge r c.
+    h = HWords [c] r -> c <> [] -> forallb clean c = true -> hverdict astr h = judge r c.
   Proof.
     intros -> Hc Hq. rewrite hverdict_words; [|discriminate|constructor; [exact Hc|constructor]].
-    cbn [map]. rewrite combine_one. rewrite map_reread_no_sq by exact Hq. reflexivity.
+    cbn [map]. rewrite combine_one. rewrite map_reread_clean by exact Hq. reflexivity.
   Qed.
 
   (* an inner command given as a string on the command line (sh -c, env -S) is analysed as it is *)
@@ -107,63 +99,6 @@ Section Glue.
   Proof. intro H. unfold hverdict. cbn [render cls_verdict]. destruct s; [congruence|reflexivity]. Qed.
 End Glue.
 
-(* ================================================================== suffix invariants: a handler never
-   invents, reorders or drops words inside the inner command - it delegates a suffix of the command line *)
-Definition suffix_of {A} (s l : list A) : Prop := exists p, l = p ++ s.
-Lemma suffix_refl {A} (l : list A) : suffix_of l l.
-Proof. exists []. reflexivity. Qed.
-Lemma suffix_cons {A} (x : A) s l : suffix_of s l -> suffix_of s (x :: l).
-Proof. intros [p ->]. exists (x :: p). reflexivity. Qed.
-Lemma suffix_nil {A} (l : list A) : suffix_of [] l.
-Proof. exists l. symmetry. apply app_nil_r. Qed.
-
-Lemma xargs_skip_suffix l : suffix_of (xargs_skip l) l.
-Proof.
-  induction l as [l IH] using list_len_ind.
-  destruct l as [|t r]; [apply suffix_refl|]. cbn [xargs_skip].
-  destruct (is "--" t); [apply suffix_cons, suffix_refl|].
-  destruct (negb (dash t)); [apply suffix_refl|].
-  destruct (mem_str t XARGS_FLAGS_WITH_ARG).
-  - destruct r as [|a r']; [apply suffix_nil|]. apply suffix_cons, suffix_cons, IH. cbn [length]. lia.
-  - apply suffix_cons, IH. cbn [length]. lia.
-Qed.
-
-Lemma docker_inner_suffix l : suffix_of (docker_exec_inner l) l.
-Proof.
-  induction l as [l IH] using list_len_ind.
-  destruct l as [|t r]; [apply suffix_refl|]. cbn [docker_exec_inner].
-  destruct (is "--" t); [apply suffix_cons, suffix_refl|].
-  destruct (mem_str t DOCKER_EXEC_FLAGS_WITH_ARG).
-  - destruct r as [|a r']; [apply suffix_nil|]. apply suffix_cons, suffix_cons, IH. cbn [length]. lia.
-  - destruct (dash t); [apply suffix_cons, IH; cbn [length]; lia | apply suffix_cons, suffix_refl].
-Qed.
-
-Lemma after_ddash_suffix l s : after_ddash l = Some s -> suffix_of s l.
-Proof.
-  revert s. induction l as [|t r IH]; intros s H; [discriminate|]. cbn [after_ddash] in H.
-  destruct (is "--" t).
-  - injection H as <-. apply suffix_cons, suffix_refl.
-  - apply suffix_cons, IH, H.
-Qed.
-
-Lemma env_scan_words_suffix l c r : env_scan l = HWords [c] r -> suffix_of c l /\ r = false.
-Proof.
-  revert c r. induction l as [l IH] using list_len_ind.
-  intros c r H. destruct l as [|t rest]; [discriminate|]. cbn [env_scan] in H.
-  destruct (is "--" t).
-  { destruct rest; [discriminate|]. injection H as <- <-. split; [apply suffix_cons, suffix_refl|reflexivity]. }
-  destruct (mem_str t ENV_SPLIT_FLAGS && nonempty rest); [discriminate|].
-  destruct (prefixb SPLIT_EQ t); [discriminate|].
-  destruct (starts "-S" t && Nat.ltb 2 (length t)); [discriminate|].
-  destruct (mem_str t ENV_FLAGS_WITH_ARG).
-  { destruct rest as [|a rest']; [discriminate|].
-    destruct (IH rest' ltac:(cbn [length]; lia) c r H) as [S R]. split; [apply suffix_cons, suffix_cons, S|exact R]. }
-  destruct (dash t).
-  { destruct (IH rest ltac:(cbn [length]; lia) c r H) as [S R]. split; [apply suffix_cons, S|exact R]. }
-  destruct (has_eq t).
-  { destruct (IH rest ltac:(cbn [length]; lia) c r H) as [S R]. split; [apply suffix_cons, S|exact R]. }
-  injection H as <- <-. split; [apply suffix_refl|reflexivity].
-Qed.
 
 (* ================================================================== words *)
 Lemma dash_false_cases w : dash w = false -> w = [] \/ exists c cs, w = c :: cs /\ c <> 45.
@@ -222,184 +157,271 @@ Proof.
   rewrite <- (app_nil_r p) in H at 2. apply app_inv_head in H. congruence.
 Qed.
 
-(* ================================================================== docker exec (C13_extract) *)
-(* the option spellings on which the handler and docker agree *)
-Definition DK_BOOL_WORDS : list str :=
-  map s2l ["-d"; "-i"; "-t"; "-it"; "-ti"; "-di"; "-id"; "-dt"; "-td"; "-dit"; "-itd"; "-tid";
-           "--detach"; "--interactive"; "--tty"; "--privileged"].
-Definition DK_VAL_FLAGS : list str := map s2l ["-e"; "--env"; "-w"; "--workdir"; "-u"; "--user"; "--env-file"].
-Definition DK_LONG_EQ : list str := map s2l ["--env="; "--workdir="; "--user="; "--env-file="; "--detach-keys="].
-Definition DK_SHORT_ATT : list str := map s2l ["-e"; "-w"; "-u"].
 
-Inductive dk_opts : list str -> Prop :=
-| dk_nil : dk_opts []
-| dk_bool w r : In w DK_BOOL_WORDS -> dk_opts r -> dk_opts (w :: r)                     (* -i -it --tty ... *)
-| dk_sep f v r : In f DK_VAL_FLAGS -> dk_opts r -> dk_opts (f :: v :: r)                 (* -e V, --env V: V is ANY word *)
-| dk_eq p v r : In p DK_LONG_EQ -> dk_opts r -> dk_opts ((p ++ v) :: r)                  (* --env=V *)
-| dk_att p v r : In p DK_SHORT_ATT -> v <> [] -> dk_opts r -> dk_opts ((p ++ v) :: r).   (* -eV *)
+(* ================================================================== the shape of a word, inverted *)
+Lemma word_kind_short b r : b <> 45 -> word_kind (45 :: b :: r) = WShort (b :: r).
+Proof.
+  intro H. destruct b as [|p]; [reflexivity|].
+  do 7 (try (destruct p as [p|p|]; try reflexivity; try congruence)).
+Qed.
 
-Lemma dk_bool_facts : forallb (fun w => negb (is "--" w) && negb (mem_str w DOCKER_EXEC_FLAGS_WITH_ARG) && dash w) DK_BOOL_WORDS = true.
+Lemma word_kind_inv w :
+  match word_kind w with
+  | WDDash => w = [45; 45]
+  | WLong b => w = 45 :: 45 :: b /\ b <> []
+  | WShort cs => w = 45 :: cs /\ exists c r, cs = c :: r /\ c <> 45
+  | WOperand => dash w = false \/ w = [45]
+  end.
+Proof.
+  destruct w as [|a [|b r]].
+  - left. reflexivity.
+  - destruct (N.eqb_spec a 45) as [->|Hn]; [right; reflexivity|].
+    rewrite word_kind_not45 by exact Hn. left. unfold dash, starts. change (s2l "-") with [45].
+    cbn [prefixb]. apply N.eqb_neq in Hn. rewrite N.eqb_sym, Hn. reflexivity.
+  - destruct (N.eqb_spec a 45) as [->|Hn].
+    + destruct (N.eqb_spec b 45) as [->|Hb].
+      * destruct r as [|c r]; [reflexivity|]. split; [reflexivity|discriminate].
+      * rewrite word_kind_short by exact Hb. split; [reflexivity|]. exists b, r. auto.
+    + rewrite word_kind_not45 by exact Hn. left. unfold dash, starts. change (s2l "-") with [45].
+      cbn [prefixb]. apply N.eqb_neq in Hn. rewrite N.eqb_sym, Hn. reflexivity.
+Qed.
+
+Lemma split_eq_none body n : split_eq body = (n, None) -> body = n /\ mem_ch 61 body = false.
+Proof.
+  revert n. induction body as [|c r IH]; intros n H.
+  - injection H as <-. auto.
+  - cbn [split_eq] in H. destruct (N.eqb c EQ) eqn:E; [discriminate|].
+    destruct (split_eq r) as [n' v'] eqn:S. injection H as <- ->.
+    destruct (IH n' eq_refl) as [-> M]. split; [reflexivity|].
+    unfold mem_ch in *. cbn [existsb]. unfold EQ in E. rewrite N.eqb_sym, E, M. reflexivity.
+Qed.
+
+Lemma split_eq_some body n v : split_eq body = (n, Some v) -> mem_ch 61 body = true.
+Proof.
+  revert n. induction body as [|c r IH]; intros n H; [discriminate|].
+  cbn [split_eq] in H. unfold mem_ch. cbn [existsb]. destruct (N.eqb c EQ) eqn:E.
+  - unfold EQ in E. rewrite N.eqb_sym, E. reflexivity.
+  - destruct (split_eq r) as [n' v'] eqn:S. injection H as <- ->.
+    unfold mem_ch in IH. rewrite (IH n' eq_refl). apply orb_true_r.
+Qed.
+
+(* ================================================================== docker exec: the handler agrees with
+   docker on EVERY argument list docker accepts (C13_extract, general form) *)
+Lemma dk_short_table c : mem_str [c] DOCKER_EXEC_SHORT_WITH_ARG = mem_ch c (p_val_s docker_exec_flags).
+Proof.
+  unfold mem_str, mem_ch. cbn. rewrite !andb_true_r. rewrite (N.eqb_sym c 101), (N.eqb_sym c 117), (N.eqb_sym c 119).
+  reflexivity.
+Qed.
+
+Lemma dk_cluster_agree cs :
+  match pcluster docker_exec_flags cs with
+  | PCDone => docker_cluster cs = false
+  | PCNeed => docker_cluster cs = true
+  | _ => True
+  end.
+Proof.
+  induction cs as [|c r IH]; [reflexivity|].
+  cbn [pcluster docker_cluster]. rewrite dk_short_table.
+  destruct (N.eqb c 104); [exact I|].
+  destruct (mem_ch c (p_val_s docker_exec_flags)).
+  - destruct r; reflexivity.
+  - destruct (mem_ch c (p_bool_s docker_exec_flags)); [|exact I].
+    destruct (match r with d :: _ => N.eqb d 61 | [] => false end); [exact I|exact IH].
+Qed.
+
+Lemma dk_val_long_in_table : forallb (fun n => mem_str (45 :: 45 :: n) DOCKER_EXEC_FLAGS_WITH_ARG) (p_val_l docker_exec_flags) = true.
 Proof. vm_compute. reflexivity. Qed.
-Lemma dk_val_facts : forallb (fun f => negb (is "--" f) && mem_str f DOCKER_EXEC_FLAGS_WITH_ARG) DK_VAL_FLAGS = true.
+Lemma dk_bool_long_not_in_table : forallb (fun n => negb (mem_str (45 :: 45 :: n) DOCKER_EXEC_FLAGS_WITH_ARG)) (p_bool_l docker_exec_flags) = true.
 Proof. vm_compute. reflexivity. Qed.
 Lemma dk_table_no_eq : forallb (fun e => negb (has_eq e)) DOCKER_EXEC_FLAGS_WITH_ARG = true.
 Proof. vm_compute. reflexivity. Qed.
-Lemma dk_eq_facts : forallb (fun p => dash p && has_eq p && Nat.ltb 2 (length p)) DK_LONG_EQ = true.
+(* the one-dash entries of the table are exactly the words whose cluster needs the next word *)
+Lemma dk_table_short : forallb (fun e => match e with
+                                         | 45 :: 45 :: _ => true
+                                         | 45 :: cs => match pcluster docker_exec_flags cs with PCNeed => true | _ => false end
+                                         | _ => false end) DOCKER_EXEC_FLAGS_WITH_ARG = true.
 Proof. vm_compute. reflexivity. Qed.
-Lemma dk_att_facts : forallb (fun p => dash p && Nat.eqb (length p) 2 &&
-   forallb (fun e => negb (prefixb p e) || str_eqb e p) DOCKER_EXEC_FLAGS_WITH_ARG) DK_SHORT_ATT = true.
-Proof. vm_compute. reflexivity. Qed.
 
-Lemma dk_h_skip1 w r : dash w = true -> is "--" w = false -> mem_str w DOCKER_EXEC_FLAGS_WITH_ARG = false ->
-  docker_exec_inner (w :: r) = docker_exec_inner r.
-Proof. intros H1 H2 H3. cbn [docker_exec_inner]. rewrite H2, H3, H1. reflexivity. Qed.
-
-Lemma dk_handler opts : dk_opts opts -> forall ctr cmd, dash ctr = false -> is "--" ctr = false ->
-  mem_str ctr DOCKER_EXEC_FLAGS_WITH_ARG = false -> docker_exec_inner (opts ++ ctr :: cmd) = cmd.
+Lemma dash_false_mem p T : dash p = false -> forallb dash T = true -> mem_str p T = false.
 Proof.
-  induction 1 as [|w r Hw _ IH|f v r Hf _ IH|p v r Hp _ IH|p v r Hp Hv _ IH]; intros ctr cmd Hd Hdd Hm.
-  - cbn [app docker_exec_inner]. rewrite Hdd, Hm, Hd. reflexivity.
-  - pose proof (proj1 (forallb_forall _ _) dk_bool_facts w Hw) as F. cbv beta in F.
-    rewrite !andb_true_iff, !negb_true_iff in F. destruct F as [[F1 F2] F3].
-    cbn [app]. rewrite dk_h_skip1 by assumption. apply IH; assumption.
-  - pose proof (proj1 (forallb_forall _ _) dk_val_facts f Hf) as F. cbv beta in F.
-    rewrite andb_true_iff, negb_true_iff in F. destruct F as [F1 F2].
-    cbn [app docker_exec_inner]. rewrite F1, F2. apply IH; assumption.
-  - pose proof (proj1 (forallb_forall _ _) dk_eq_facts p Hp) as F. cbv beta in F.
-    rewrite !andb_true_iff in F. destruct F as [[F1 F2] F3]. apply Nat.ltb_lt in F3.
-    cbn [app]. rewrite dk_h_skip1.
-    + apply IH; assumption.
-    + apply dash_app, F1.
-    + apply is_ddash_long. rewrite app_length. lia.
-    + apply mem_str_false_of_eq; [apply has_eq_app_l, F2|exact dk_table_no_eq].
-  - pose proof (proj1 (forallb_forall _ _) dk_att_facts p Hp) as F. cbv beta in F.
-    rewrite !andb_true_iff in F. destruct F as [[F1 F2] F3]. apply Nat.eqb_eq in F2.
-    cbn [app]. rewrite dk_h_skip1.
-    + apply IH; assumption.
-    + apply dash_app, F1.
-    + apply is_ddash_long. rewrite app_length. destruct v; [congruence|cbn [length]; lia].
-    + apply mem_str_no_extension; assumption.
+  intros Hp HT. destruct (mem_str p T) eqn:E; [|reflexivity]. apply mem_str_In in E.
+  rewrite (proj1 (forallb_forall _ _) HT p E) in Hp. discriminate.
 Qed.
 
-Lemma dk_spec opts : dk_opts opts -> forall ctr cmd, dash ctr = false ->
-  pflag docker_exec_flags false (opts ++ ctr :: cmd) = POk (ctr :: cmd) None false.
+Lemma dash_false_not_ddash_early a : dash a = false -> is "--" a = false.
 Proof.
-  induction 1 as [|w r Hw _ IH|f v r Hf _ IH|p v r Hp _ IH|p v r Hp Hv _ IH]; intros ctr cmd Hd.
-  - cbn [app pflag]. rewrite (word_kind_operand ctr Hd). reflexivity.
-  - cbn [app]. rewrite <- (IH ctr cmd Hd).
-    repeat (destruct Hw as [<-|Hw]; [reflexivity|]). destruct Hw.
-  - cbn [app]. rewrite <- (IH ctr cmd Hd).
-    repeat (destruct Hf as [<-|Hf]; [reflexivity|]). destruct Hf.
-  - cbn [app]. rewrite <- (IH ctr cmd Hd).
-    repeat (destruct Hp as [<-|Hp]; [reflexivity|]). destruct Hp.
-  - cbn [app]. rewrite <- (IH ctr cmd Hd). destruct v as [|c cs]; [congruence|].
-    repeat (destruct Hp as [<-|Hp]; [reflexivity|]). destruct Hp.
+  intro H. destruct (dash_false_cases a H) as [->|(c & cs & -> & Hn)]; [reflexivity|].
+  unfold is. destruct (str_eqb_spec (c :: cs) (s2l "--")) as [E|]; [|reflexivity].
+  injection E as E _. subst c. exfalso. apply Hn. reflexivity.
 Qed.
 
-(* the handler extracts exactly the command docker sends to the container, for every inner command *)
-Lemma docker_extract opts ctr cmd :
-  dk_opts opts -> dash ctr = false -> cmd <> [] ->
-  docker_exec_inner (opts ++ ctr :: cmd) = cmd /\ docker_exec_args (opts ++ ctr :: cmd) = Some [cmd].
+Lemma is_ddash_false_long b : b <> [] -> is "--" (45 :: 45 :: b) = false.
+Proof. intro H. destruct b; [congruence|reflexivity]. Qed.
+
+Lemma starts_dd b : starts "--" (45 :: 45 :: b) = true.
+Proof. reflexivity. Qed.
+
+Theorem docker_opts_general : forall args p a,
+  pflag docker_exec_flags false args = POk p a false -> docker_exec_opts args = joinpos p a.
 Proof.
-  intros Ho Hd Hc. split.
-  - apply dk_handler; try assumption.
-    + destruct (dash_false_cases ctr Hd) as [->|(c & cs & -> & Hn)]; [reflexivity|].
-      unfold is. destruct (str_eqb_spec (c :: cs) (s2l "--")) as [E|]; [|reflexivity].
-      injection E as E _. subst c. exfalso. apply Hn. reflexivity.
-    + destruct (mem_str ctr DOCKER_EXEC_FLAGS_WITH_ARG) eqn:E; [|reflexivity].
-      apply mem_str_In in E.
-      assert (F : forallb dash DOCKER_EXEC_FLAGS_WITH_ARG = true) by (vm_compute; reflexivity).
-      rewrite (proj1 (forallb_forall _ _) F ctr E) in Hd. discriminate.
-  - unfold docker_exec_args. rewrite dk_spec by assumption. cbn [joinpos].
-    destruct cmd as [|c cs]; [congruence|]. reflexivity.
+  induction args as [args IH] using list_len_ind. intros p a H.
+  destruct args as [|x r]; [cbn in H; injection H as <- <-; reflexivity|].
+  cbn [pflag] in H. pose proof (word_kind_inv x) as K. destruct (word_kind x) as [|body|cs|] eqn:WK.
+  - (* -- *) subst x. injection H as <- <-. reflexivity.
+  - (* --name[=value] *) destruct K as [-> Hb]. destruct (split_eq body) as [n v] eqn:SE.
+    cbn [docker_exec_opts]. rewrite (is_ddash_false_long body Hb).
+    destruct (str_eqb n (S "help")).
+    { destruct (pflag docker_exec_flags false r); cbn [phelp] in H; discriminate. }
+    destruct (mem_str n (p_val_l docker_exec_flags)) eqn:Mv.
+    + destruct v as [v|].
+      * rewrite mem_str_false_of_eq; [|unfold has_eq; cbn [mem_ch existsb]; apply (split_eq_some _ _ _) in SE; unfold mem_ch in *; cbn [existsb]; rewrite SE; apply orb_true_r|exact dk_table_no_eq].
+        rewrite starts_dd. apply IH; [cbn [length]; lia|exact H].
+      * destruct (split_eq_none _ _ SE) as [-> _].
+        apply mem_str_In in Mv. pose proof (proj1 (forallb_forall _ _) dk_val_long_in_table n Mv) as T. cbv beta in T.
+        rewrite T. destruct r as [|y r']; [discriminate|]. apply IH; [cbn [length]; lia|exact H].
+    + destruct (mem_str n (p_bool_l docker_exec_flags)) eqn:Mb; [|discriminate].
+      destruct v as [v|]; [discriminate|]. destruct (split_eq_none _ _ SE) as [-> _].
+      apply mem_str_In in Mb. pose proof (proj1 (forallb_forall _ _) dk_bool_long_not_in_table n Mb) as T. cbv beta in T.
+      apply negb_true_iff in T. rewrite T, starts_dd. apply IH; [cbn [length]; lia|exact H].
+  - (* -abc *) destruct K as [-> (c & cs' & -> & Hc)].
+    cbn [docker_exec_opts].
+    assert (D1 : is "--" (45 :: c :: cs') = false).
+    { unfold is. destruct (str_eqb_spec (45 :: c :: cs') (s2l "--")) as [E|]; [|reflexivity]. injection E as E _. congruence. }
+    assert (D2 : starts "--" (45 :: c :: cs') = false).
+    { unfold starts. change (s2l "--") with [45; 45]. cbn [prefixb]. apply N.eqb_neq in Hc. rewrite (N.eqb_sym 45 c), Hc. reflexivity. }
+    rewrite D1. pose proof (dk_cluster_agree (c :: cs')) as A.
+    destruct (mem_str (45 :: c :: cs') DOCKER_EXEC_FLAGS_WITH_ARG) eqn:M.
+    + apply mem_str_In in M. pose proof (proj1 (forallb_forall _ _) dk_table_short _ M) as T. cbv beta in T.
+      assert (T' : match pcluster docker_exec_flags (c :: cs') with PCNeed => true | _ => false end = true).
+      { revert T. clear -Hc. destruct c as [|q]; [auto|]. do 7 (try (destruct q as [q|q|]; auto; try congruence)). }
+      destruct (pcluster docker_exec_flags (c :: cs')); try discriminate.
+      destruct r as [|y r']; [discriminate|]. apply IH; [cbn [length]; lia|exact H].
+    + rewrite D2. change (dash (45 :: c :: cs')) with true. cbn [length Nat.ltb Nat.leb andb tl'].
+      destruct (pcluster docker_exec_flags (c :: cs')) eqn:PC.
+      * discriminate.
+      * rewrite A. apply IH; [cbn [length]; lia|exact H].
+      * rewrite A. destruct r as [|y r']; [discriminate|]. apply IH; [cbn [length]; lia|exact H].
+      * destruct (pflag docker_exec_flags false r); cbn [phelp] in H; discriminate.
+  - (* operand: the container *) injection H as <- <-. cbn [joinpos docker_exec_opts].
+    destruct K as [Hd| ->]; [|reflexivity].
+    rewrite (dash_false_not_ddash_early x Hd).
+    rewrite (dash_false_mem x DOCKER_EXEC_FLAGS_WITH_ARG Hd) by (vm_compute; reflexivity).
+    unfold starts. change (s2l "--") with [45; 45].
+    destruct (dash_false_cases x Hd) as [->|(c & cs & -> & Hn)]; [reflexivity|].
+    cbn [prefixb]. apply N.eqb_neq in Hn. rewrite (N.eqb_sym 45 c), Hn. cbn [andb]. rewrite Hd. reflexivity.
 Qed.
 
-(* the whole handler / the whole docker command line, for  docker exec ...  and  podman exec ... *)
 Lemma docker_h_exec base rest :
   In base [s2l "docker"; s2l "podman"] ->
   docker_h (base :: s2l "exec" :: rest) =
   Some (match docker_exec_inner rest with [] => HAsk | inner => HWords [inner] true end).
 Proof. intros [<-|[<-|[]]]; reflexivity. Qed.
 
-Lemma docker_spec_exec rest : docker_exec (s2l "exec" :: rest) = docker_exec_args rest.
-Proof. reflexivity. Qed.
-
-Lemma docker_extract_full base opts ctr cmd :
-  In base [s2l "docker"; s2l "podman"] -> dk_opts opts -> dash ctr = false -> cmd <> [] ->
-  modelled (base :: s2l "exec" :: opts ++ ctr :: cmd) = Some (HWords [cmd] true) /\
-  wrapper_exec (base :: s2l "exec" :: opts ++ ctr :: cmd) = Some [cmd].
+(* C13_extract for docker/podman exec, every argument list: whatever docker would send to the
+   container is exactly what the handler delegates, as a remote command *)
+Theorem docker_extract_general base args cmd :
+  In base [s2l "docker"; s2l "podman"] -> docker_exec_args args = Some [cmd] ->
+  modelled (base :: s2l "exec" :: args) = Some (HWords [cmd] true).
 Proof.
-  intros Hb Ho Hd Hc. destruct (docker_extract opts ctr cmd Ho Hd Hc) as [E1 E2]. split.
-  - assert (M : modelled (base :: s2l "exec" :: opts ++ ctr :: cmd) = docker_h (base :: s2l "exec" :: opts ++ ctr :: cmd)).
-    { destruct Hb as [<-|[<-|[]]]; reflexivity. }
-    rewrite M, docker_h_exec by exact Hb. rewrite E1. destruct cmd; [congruence|reflexivity].
-  - assert (W : wrapper_exec (base :: s2l "exec" :: opts ++ ctr :: cmd) = docker_exec (s2l "exec" :: opts ++ ctr :: cmd)).
-    { destruct Hb as [<-|[<-|[]]]; reflexivity. }
-    rewrite W, docker_spec_exec. exact E2.
+  intros Hb H. unfold docker_exec_args in H.
+  destruct (pflag docker_exec_flags false args) as [|p a h] eqn:P; [discriminate|].
+  destruct h; [discriminate|].
+  assert (M : modelled (base :: s2l "exec" :: args) = docker_h (base :: s2l "exec" :: args)).
+  { destruct Hb as [<-|[<-|[]]]; reflexivity. }
+  rewrite M, docker_h_exec by exact Hb. unfold docker_exec_inner.
+  rewrite (docker_opts_general args p a P).
+  destruct (joinpos p a) as [|ctr [|c cs]]; try discriminate. injection H as <-. reflexivity.
 Qed.
 
-(* where the extraction is NOT what docker runs (each confirmed with the real docker client):
-   -- before the container, a cluster ending in a value flag, a value flag missing from the table *)
 Definition w (l : list string) : list str := map s2l l.
-Lemma docker_extract_refuted :
-  (modelled (w ["docker"; "exec"; "--"; "ls"; "rm"; "x"]) = Some (HWords [w ["ls"; "rm"; "x"]] true) /\
-   wrapper_exec (w ["docker"; "exec"; "--"; "ls"; "rm"; "x"]) = Some [w ["rm"; "x"]]) /\
-  (modelled (w ["docker"; "exec"; "-ie"; "A=1"; "ls"; "rm"; "x"]) = Some (HWords [w ["ls"; "rm"; "x"]] true) /\
-   wrapper_exec (w ["docker"; "exec"; "-ie"; "A=1"; "ls"; "rm"; "x"]) = Some [w ["rm"; "x"]]) /\
-  (modelled (w ["docker"; "exec"; "--detach-keys"; "a"; "cat"; "rm"; "x"]) = Some (HWords [w ["cat"; "rm"; "x"]] true) /\
-   wrapper_exec (w ["docker"; "exec"; "--detach-keys"; "a"; "cat"; "rm"; "x"]) = Some [w ["rm"; "x"]]).
+
+(* the spellings that were mis-read before commit a411fbf are now read as docker reads them *)
+Lemma docker_formerly_refuted :
+  modelled (w ["docker"; "exec"; "--"; "ls"; "rm"; "x"]) = Some (HWords [w ["rm"; "x"]] true) /\
+  modelled (w ["docker"; "exec"; "-ie"; "A=1"; "ls"; "rm"; "x"]) = Some (HWords [w ["rm"; "x"]] true) /\
+  modelled (w ["docker"; "exec"; "--detach-keys"; "a"; "cat"; "rm"; "x"]) = Some (HWords [w ["rm"; "x"]] true).
 Proof. vm_compute. repeat split; reflexivity. Qed.
 
+(* Legacy: the extraction before a411fbf (kept to recognise a revert) *)
+Fixpoint legacy_docker_exec_inner (l : list str) : list str :=
+  match l with
+  | [] => []
+  | t :: r =>
+      if is "--" t then r
+      else if mem_str t (filter (fun e => negb (is "--detach-keys" e)) DOCKER_EXEC_FLAGS_WITH_ARG)
+      then match r with [] => [] | _ :: r' => legacy_docker_exec_inner r' end
+      else if dash t then legacy_docker_exec_inner r
+      else r
+  end.
+Lemma legacy_docker_refuted :
+  legacy_docker_exec_inner (w ["--"; "ls"; "rm"; "x"]) = w ["ls"; "rm"; "x"] /\
+  docker_exec_args (w ["--"; "ls"; "rm"; "x"]) = Some [w ["rm"; "x"]].
+Proof. vm_compute. split; reflexivity. Qed.
+
 (* ================================================================== kubectl exec *)
-(* words between exec and -- on which handler and kubectl agree: pod names, boolean flags, value
-   flags with a separate value that is NOT the word -- , =-joined values *)
-Definition KC_BOOL_WORDS : list str := map s2l ["-i"; "-t"; "-it"; "-ti"; "-q"; "--stdin"; "--tty"; "--quiet"].
+(* words between exec and -- : pod names, boolean flags, value flags with ANY separate value
+   (also the word -- : the defect repaired by 7f14a42), =-joined and attached values *)
+Definition KC_BOOL_WORDS : list str := map s2l ["-i"; "-t"; "-it"; "-ti"; "-q"; "-itq"; "--stdin"; "--tty"; "--quiet"].
 Definition KC_VAL_FLAGS : list str := map s2l ["-c"; "--container"; "-n"; "--namespace"; "-f"; "--filename"; "--context"; "--cluster"; "--kubeconfig"; "--cache-dir"].
 Definition KC_LONG_EQ : list str := map s2l ["--container="; "--namespace="; "--filename="; "--context="; "--kubeconfig="; "--pod-running-timeout="].
+Definition KC_SHORT_ATT : list str := map s2l ["-c"; "-n"; "-f"].
 Inductive kc_mid : list str -> list str -> Prop :=     (* words, the positionals among them *)
 | kc_nil : kc_mid [] []
 | kc_pos p r ps : dash p = false -> kc_mid r ps -> kc_mid (p :: r) (p :: ps)
 | kc_bool b r ps : In b KC_BOOL_WORDS -> kc_mid r ps -> kc_mid (b :: r) ps
-| kc_sep f v r ps : In f KC_VAL_FLAGS -> is "--" v = false -> kc_mid r ps -> kc_mid (f :: v :: r) ps
-| kc_eq p v r ps : In p KC_LONG_EQ -> kc_mid r ps -> kc_mid ((p ++ v) :: r) ps.
+| kc_sep f v r ps : In f KC_VAL_FLAGS -> kc_mid r ps -> kc_mid (f :: v :: r) ps
+| kc_eq p v r ps : In p KC_LONG_EQ -> kc_mid r ps -> kc_mid ((p ++ v) :: r) ps
+| kc_att p v r ps : In p KC_SHORT_ATT -> v <> [] -> kc_mid r ps -> kc_mid ((p ++ v) :: r) ps.
+
+Lemma has_eq_app_l' p v : has_eq p = true -> has_eq (p ++ v) = true.
+Proof. unfold has_eq. rewrite !mem_ch_In. intro H. apply in_or_app. auto. Qed.
 
 Lemma kc_handler mid ps : kc_mid mid ps -> forall cmd, after_ddash (mid ++ s2l "--" :: cmd) = Some cmd.
 Proof.
-  induction 1 as [|p r ps Hp _ IH|b r ps Hb _ IH|f v r ps Hf Hv _ IH|p v r ps Hp _ IH]; intro cmd.
+  induction 1 as [|p r ps Hp _ IH|b r ps Hb _ IH|f v r ps Hf _ IH|p v r ps Hp _ IH|p v r ps Hp Hv _ IH]; intro cmd.
   - reflexivity.
+  - cbn [app after_ddash]. rewrite (dash_false_not_ddash_early p Hp), Hp. apply IH.
+  - cbn [app]. rewrite <- (IH cmd). repeat (destruct Hb as [<-|Hb]; [reflexivity|]). destruct Hb.
+  - cbn [app]. rewrite <- (IH cmd). repeat (destruct Hf as [<-|Hf]; [reflexivity|]). destruct Hf.
   - cbn [app after_ddash].
-    assert (E : is "--" p = false).
-    { destruct (dash_false_cases p Hp) as [->|(c & cs & -> & Hn)]; [reflexivity|].
-      unfold is. destruct (str_eqb_spec (c :: cs) (s2l "--")) as [E|]; [|reflexivity].
-      injection E as E _. subst c. exfalso. apply Hn. reflexivity. }
-    rewrite E. apply IH.
-  - cbn [app after_ddash].
-    assert (F : forallb (fun b => negb (is "--" b)) KC_BOOL_WORDS = true) by (vm_compute; reflexivity).
-    pose proof (proj1 (forallb_forall _ _) F b Hb) as E. cbv beta in E. apply negb_true_iff in E. rewrite E. apply IH.
-  - cbn [app after_ddash].
-    assert (F : forallb (fun b => negb (is "--" b)) KC_VAL_FLAGS = true) by (vm_compute; reflexivity).
-    pose proof (proj1 (forallb_forall _ _) F f Hf) as E. cbv beta in E. apply negb_true_iff in E. rewrite E, Hv. apply IH.
-  - cbn [app after_ddash].
-    assert (F : forallb (fun p => Nat.ltb 2 (length p)) KC_LONG_EQ = true) by (vm_compute; reflexivity).
-    pose proof (proj1 (forallb_forall _ _) F p Hp) as E. cbv beta in E. apply Nat.ltb_lt in E.
-    rewrite is_ddash_long by (rewrite app_length; lia). apply IH.
+    assert (F : forallb (fun p => Nat.ltb 2 (length p) && has_eq p) KC_LONG_EQ = true) by (vm_compute; reflexivity).
+    pose proof (proj1 (forallb_forall _ _) F p Hp) as E. cbv beta in E. apply andb_true_iff in E as [E1 E2]. apply Nat.ltb_lt in E1.
+    assert (D : is "--" (p ++ v) = false).
+    { unfold is. destruct (str_eqb_spec (p ++ v) (s2l "--")) as [E|]; [|reflexivity].
+      apply (f_equal (@length N)) in E. rewrite app_length in E. cbn in E. lia. }
+    rewrite D, (has_eq_app_l' p v E2). rewrite andb_false_r. apply IH.
+  - cbn [app]. rewrite <- (IH cmd). destruct v as [|c cs]; [congruence|].
+    destruct (has_eq (c :: cs)) eqn:Hq.
+    + assert (Q : forall p', In p' KC_SHORT_ATT -> after_ddash ((p' ++ c :: cs) :: r ++ s2l "--" :: cmd) = after_ddash (r ++ s2l "--" :: cmd)).
+      { intros p' Hp'. cbn [after_ddash].
+        assert (D : is "--" (p' ++ c :: cs) = false).
+        { repeat (destruct Hp' as [<-|Hp']; [reflexivity|]). destruct Hp'. }
+        rewrite D. assert (Hh : has_eq (p' ++ c :: cs) = true).
+        { unfold has_eq in *. rewrite mem_ch_In in *. apply in_or_app. auto. }
+        rewrite Hh. rewrite andb_false_r. reflexivity. }
+      apply Q, Hp.
+    + assert (Q : forall p', In p' KC_SHORT_ATT -> after_ddash ((p' ++ c :: cs) :: r ++ s2l "--" :: cmd) = after_ddash (r ++ s2l "--" :: cmd)).
+      { intros p' Hp'.
+        assert (Hh : forall a b, has_eq (a :: b :: c :: cs) = N.eqb 61 a || N.eqb 61 b || has_eq (c :: cs)).
+        { intros a b. unfold has_eq, mem_ch. cbn [existsb]. rewrite !orb_assoc. reflexivity. }
+        repeat (destruct Hp' as [<-|Hp']; [cbn [s2l ch app after_ddash]; rewrite Hh, Hq; reflexivity|]). destruct Hp'. }
+      apply Q, Hp.
 Qed.
 
 Lemma kc_spec mid ps : kc_mid mid ps -> forall cmd,
   pflag kubectl_flags true (mid ++ s2l "--" :: cmd) = POk ps (Some cmd) false.
 Proof.
-  induction 1 as [|p r ps Hp _ IH|b r ps Hb _ IH|f v r ps Hf Hv _ IH|p v r ps Hp _ IH]; intro cmd.
+  induction 1 as [|p r ps Hp _ IH|b r ps Hb _ IH|f v r ps Hf _ IH|p v r ps Hp _ IH|p v r ps Hp Hv _ IH]; intro cmd.
   - reflexivity.
   - cbn [app pflag]. rewrite (word_kind_operand p Hp). cbn iota. rewrite IH. reflexivity.
-  - cbn [app]. rewrite <- (IH cmd).
-    repeat (destruct Hb as [<-|Hb]; [reflexivity|]). destruct Hb.
-  - cbn [app]. rewrite <- (IH cmd).
-    repeat (destruct Hf as [<-|Hf]; [reflexivity|]). destruct Hf.
-  - cbn [app]. rewrite <- (IH cmd).
+  - cbn [app]. rewrite <- (IH cmd). repeat (destruct Hb as [<-|Hb]; [reflexivity|]). destruct Hb.
+  - cbn [app]. rewrite <- (IH cmd). repeat (destruct Hf as [<-|Hf]; [reflexivity|]). destruct Hf.
+  - cbn [app]. rewrite <- (IH cmd). repeat (destruct Hp as [<-|Hp]; [reflexivity|]). destruct Hp.
+  - cbn [app]. rewrite <- (IH cmd). destruct v as [|c cs]; [congruence|].
     repeat (destruct Hp as [<-|Hp]; [reflexivity|]). destruct Hp.
 Qed.
 
-Lemma kubectl_extract base mid ps cmd :
+Theorem kubectl_extract base mid ps cmd :
   In base [s2l "kubectl"; s2l "k"] -> kc_mid mid ps -> cmd <> [] ->
   modelled (base :: s2l "exec" :: mid ++ s2l "--" :: cmd) = Some (HWords [cmd] true) /\
   kubectl_exec (s2l "exec" :: mid ++ s2l "--" :: cmd) = Some [cmd].
@@ -414,96 +436,417 @@ Proof.
     destruct cmd; [congruence|reflexivity].
 Qed.
 
-(* a value flag may swallow the word -- : the handler then cuts at the wrong place *)
-Lemma kubectl_extract_refuted :
-  modelled (w ["kubectl"; "exec"; "--cache-dir"; "--"; "ls"; "--"; "rm"; "x"]) = Some (HWords [w ["ls"; "--"; "rm"; "x"]] true) /\
+Lemma kubectl_formerly_refuted :
+  modelled (w ["kubectl"; "exec"; "--cache-dir"; "--"; "ls"; "--"; "rm"; "x"]) = Some (HWords [w ["rm"; "x"]] true) /\
   wrapper_exec (w ["kubectl"; "exec"; "--cache-dir"; "--"; "ls"; "--"; "rm"; "x"]) = Some [w ["rm"; "x"]].
 Proof. vm_compute. split; reflexivity. Qed.
 
-(* ================================================================== sh / bash -c *)
-Lemma after_c_skip pre r : Forall (fun x => is_c_flag x = false) pre -> after_c (pre ++ r) = after_c r.
+(* Legacy (before 7f14a42): the first word -- wherever it stands *)
+Fixpoint legacy_after_ddash (l : list str) : option (list str) :=
+  match l with [] => None | t :: r => if is "--" t then Some r else legacy_after_ddash r end.
+Lemma legacy_kubectl_refuted :
+  legacy_after_ddash (w ["--cache-dir"; "--"; "ls"; "--"; "rm"; "x"]) = Some (w ["ls"; "--"; "rm"; "x"]) /\
+  kubectl_exec (w ["exec"; "--cache-dir"; "--"; "ls"; "--"; "rm"; "x"]) = Some [w ["rm"; "x"]].
+Proof. vm_compute. split; reflexivity. Qed.
+
+(* ================================================================== sh / bash: the handler agrees with the
+   shell on EVERY invocation the specification understands *)
+Definition cluster_ok (cl : str -> option (bool * bool * nat)) : Prop :=
+  forall cs hc hs n, cl cs = Some (hc, hs, n) ->
+    hc = mem_ch 99 cs /\ n = (count_ch 111 cs + count_ch 79 cs)%nat /\ mem_ch 45 cs = false.
+
+Lemma count_ch_cons c x r : count_ch c (x :: r) = ((if N.eqb c x then 1 else 0) + count_ch c r)%nat.
+Proof. unfold count_ch. cbn [filter]. destruct (N.eqb c x); reflexivity. Qed.
+
+Lemma bash_cluster_ok : cluster_ok bash_cluster.
 Proof.
-  induction pre as [|a pre IH]; intro H; [reflexivity|]. inversion H as [|? ? Ha Hp]; subst.
-  cbn [app after_c]. rewrite Ha. apply IH, Hp.
+  intro cs. induction cs as [|c r IH]; intros hc hs n H.
+  - injection H as <- <- <-. repeat split.
+  - cbn [bash_cluster] in H. destruct (bash_cluster r) as [[[hc' hs'] n']|]; [|discriminate].
+    destruct (IH hc' hs' n' eq_refl) as (E1 & E2 & E3).
+    rewrite !count_ch_cons. unfold mem_ch in E3 |- *. cbn [existsb]. rewrite E3.
+    revert H.
+    destruct (N.eqb_spec c 99) as [->|N1]; [intro H; injection H as <- <- <-; subst; repeat split; cbn; lia|].
+    destruct (N.eqb_spec c 115) as [->|N2]; [intro H; injection H as <- <- <-; subst; repeat split; cbn; lia|].
+    destruct (N.eqb_spec c 111) as [->|N3]; [intro H; injection H as <- <- <-; subst; repeat split; cbn; lia|].
+    destruct (N.eqb_spec c 79) as [->|N4]; [intro H; injection H as <- <- <-; subst; repeat split; cbn; lia|].
+    cbn [orb]. destruct (mem_ch c BASH_SHORT_FLAGS) eqn:F; [|discriminate]. intro H. injection H as <- <- <-. subst.
+    assert (c <> 45) by (intro; subst c; vm_compute in F; discriminate).
+    rewrite (proj2 (N.eqb_neq 99 c)), (proj2 (N.eqb_neq 45 c)), (proj2 (N.eqb_neq 111 c)), (proj2 (N.eqb_neq 79 c)) by congruence.
+    repeat split.
 Qed.
 
-(* whatever non--c words come first: the word after the first c-flag is the analysed string *)
-Lemma shell_c_extract base pre cflag s rest :
-  is_c_flag base = false -> Forall (fun x => is_c_flag x = false) pre -> is_c_flag cflag = true -> s <> [] ->
-  shell_h (base :: pre ++ cflag :: s :: rest) = HString s.
+Lemma dash_cluster_ok : cluster_ok dash_cluster.
 Proof.
-  intros Hb Hp Hc Hs. unfold shell_h.
-  assert (E : after_c (base :: pre ++ cflag :: s :: rest) = Some (s :: rest)).
-  { cbn [after_c]. rewrite Hb. rewrite after_c_skip by exact Hp. cbn [after_c]. rewrite Hc. reflexivity. }
-  destruct (pre ++ cflag :: s :: rest) as [|x xs] eqn:L.
-  - destruct pre; discriminate.
-  - rewrite E. destruct s; [congruence|reflexivity].
+  intro cs. induction cs as [|c r IH]; intros hc hs n H.
+  - injection H as <- <- <-. repeat split.
+  - cbn [dash_cluster] in H. destruct (dash_cluster r) as [[[hc' hs'] n']|]; [|discriminate].
+    destruct (IH hc' hs' n' eq_refl) as (E1 & E2 & E3).
+    rewrite !count_ch_cons. unfold mem_ch in E3 |- *. cbn [existsb]. rewrite E3.
+    revert H.
+    destruct (N.eqb_spec c 99) as [->|N1]; [intro H; injection H as <- <- <-; subst; repeat split; cbn; lia|].
+    destruct (N.eqb_spec c 115) as [->|N2]; [intro H; injection H as <- <- <-; subst; repeat split; cbn; lia|].
+    destruct (N.eqb_spec c 111) as [->|N3]; [intro H; injection H as <- <- <-; subst; repeat split; cbn; lia|].
+    destruct (mem_ch c DASH_SHORT_FLAGS) eqn:F; [|discriminate]. intro H. injection H as <- <- <-. subst.
+    assert (c <> 45) by (intro; subst c; vm_compute in F; discriminate).
+    assert (c <> 79) by (intro; subst c; vm_compute in F; discriminate).
+    rewrite (proj2 (N.eqb_neq 99 c)), (proj2 (N.eqb_neq 45 c)), (proj2 (N.eqb_neq 111 c)), (proj2 (N.eqb_neq 79 c)) by congruence.
+    repeat split.
 Qed.
 
-Definition optlike (s : str) : bool := match s with c :: _ => N.eqb c 45 || N.eqb c 43 | [] => false end.
-
-Lemma sh_short_operand cl s rest wc ws :
-  optlike s = false -> sh_short cl (s :: rest) wc ws O = bash_finish wc ws (s :: rest).
+Lemma bash_finish_string wc ws ops s : bash_finish wc ws ops = Some (SString s) -> wc = true /\ exists rest, ops = s :: rest.
 Proof.
-  intro H. cbn [sh_short]. destruct s as [|c [|d cs]].
-  - reflexivity.
-  - cbn [optlike] in H. apply orb_false_iff in H as [H1 H2]. cbn [str_eqb]. rewrite H1. reflexivity.
-  - cbn [optlike] in H. cbn [str_eqb]. rewrite H. apply orb_false_iff in H as [H1 H2]. rewrite H1. reflexivity.
+  unfold bash_finish. destruct wc.
+  - destruct ops as [|x r]; [discriminate|]. intro H. injection H as <-. eauto.
+  - destruct ws; [discriminate|]. destruct ops; discriminate.
 Qed.
 
-(* bash -c S ... and sh -c S ... run the string S (S not shaped like a further option) *)
-Lemma shell_c_spec s rest :
-  optlike s = false ->
-  bash_exec (s2l "-c" :: s :: rest) = Some (SString s) /\ dash_exec (s2l "-c" :: s :: rest) = Some (SString s).
+Lemma short_sim cl : cluster_ok cl -> forall l wc ws owed s,
+  sh_short cl l wc ws owed = Some (SString s) -> exists rest, shell_short l wc owed = (true, s :: rest).
 Proof.
-  intro H. split.
-  - unfold bash_exec. cbn [bash_long]. change (bash_long_name (s2l "-c")) with (Some (s2l "c", false)).
-    cbv iota beta.
-    change (mem_str (s2l "c") BASH_LONG_NOARG) with false. change (mem_str (s2l "c") BASH_LONG_ARG) with false.
-    change (mem_str (s2l "c") [S "help"; S "version"]) with false. cbv iota.
-    change (sh_short bash_cluster (s2l "-c" :: s :: rest) false false O) with (sh_short bash_cluster (s :: rest) true false O).
-    rewrite sh_short_operand by exact H. reflexivity.
-  - unfold dash_exec.
-    change (sh_short dash_cluster (s2l "-c" :: s :: rest) false false O) with (sh_short dash_cluster (s :: rest) true false O).
-    rewrite sh_short_operand by exact H. reflexivity.
+  intros Hcl l. induction l as [|x r IH]; intros wc ws owed s H.
+  - cbn [sh_short] in H. destruct owed; [|discriminate].
+    apply bash_finish_string in H as [_ [rest E]]. discriminate.
+  - cbn [sh_short shell_short] in *. destruct owed as [|k].
+    + change (is "-" x) with (str_eqb x [45]). change (is "--" x) with (str_eqb x [45; 45]).
+      destruct (str_eqb x [45] || str_eqb x [45; 45]).
+      * apply bash_finish_string in H as [-> [rest ->]]. eauto.
+      * destruct x as [|sign [|c cs]].
+        -- apply bash_finish_string in H as [-> [rest E]]. injection E as <- <-. eauto.
+        -- apply bash_finish_string in H as [-> [rest E]]. injection E as <- <-. eauto.
+        -- destruct (N.eqb sign 45 || N.eqb sign 43) eqn:Sg.
+           ++ destruct (cl (c :: cs)) as [[[hc hs] n]|] eqn:C; [|discriminate].
+              destruct (Hcl _ _ _ _ C) as (E1 & E2 & E3). subst hc n.
+              assert (Z : (count_ch 111 (sign :: c :: cs) + count_ch 79 (sign :: c :: cs) = count_ch 111 (c :: cs) + count_ch 79 (c :: cs))%nat).
+              { rewrite (count_ch_cons 111 sign), (count_ch_cons 79 sign).
+                apply orb_true_iff in Sg. destruct Sg as [Sg|Sg]; apply N.eqb_eq in Sg; subst sign; reflexivity. }
+              rewrite Z. eapply IH. exact H.
+           ++ apply bash_finish_string in H as [-> [rest E]]. injection E as <- <-. eauto.
+    + destruct (optname_ok x); [|discriminate]. eapply IH. exact H.
 Qed.
 
-(* where the handler is wrong about what the shell runs (each confirmed with real bash/dash) *)
-Lemma shell_extract_refuted :
-  (modelled (w ["bash"; "script.sh"; "-c"; "ls"]) = Some (HString (s2l "ls")) /\
-   shell_exec (w ["bash"; "script.sh"; "-c"; "ls"]) = Some (SFile (s2l "script.sh"))) /\
-  (modelled (w ["sh"; "script.sh"; "-c"; "ls"]) = Some (HString (s2l "ls")) /\
-   shell_exec (w ["sh"; "script.sh"; "-c"; "ls"]) = Some (SFile (s2l "script.sh"))) /\
-  (modelled (w ["bash"; "-rcfile"; "ls"; "-c"; "rm x"]) = Some (HString (s2l "ls")) /\
-   shell_exec (w ["bash"; "-rcfile"; "ls"; "-c"; "rm x"]) = Some (SString (s2l "rm x"))).
+(* bash's long options: the handler's tables are the specification's *)
+Lemma shell_tables :
+  forallb (fun n => mem_str n SHELL_LONG_NO_ARG && negb (mem_str n SHELL_LONG_WITH_ARG) && negb (dash n)) BASH_LONG_NOARG = true /\
+  forallb (fun n => mem_str n SHELL_LONG_WITH_ARG && negb (dash n)) BASH_LONG_ARG = true /\
+  forallb (fun n => mem_str n BASH_LONG_NOARG) SHELL_LONG_NO_ARG = true /\
+  forallb (fun n => mem_str n BASH_LONG_ARG) SHELL_LONG_WITH_ARG = true.
 Proof. vm_compute. repeat split; reflexivity. Qed.
+
+Lemma bash_long_name_inv x n two :
+  bash_long_name x = Some (n, two) ->
+  (two = true /\ x = 45 :: 45 :: n /\ n <> []) \/ (two = false /\ x = 45 :: n /\ n <> [] /\ (dash n = false \/ n = [45])).
+Proof.
+  intro H. pose proof (word_kind_inv x) as K. destruct x as [|a [|b r]]; try discriminate.
+  - (* one character *) destruct a as [|p]; [discriminate|]. revert H. do 7 (try (destruct p as [p|p|]; try discriminate)).
+  - destruct (word_kind (a :: b :: r)) as [|body|cs|] eqn:WK.
+    + injection K as -> -> ->. injection H as <- <-. right. repeat split; try discriminate. right. reflexivity.
+    + destruct K as [E Hb]. injection E as -> -> <-. destruct r as [|c r']; [congruence|]. injection H as <- <-.
+      left. repeat split. discriminate.
+    + destruct K as [E (c & r' & E2 & Hc)]. injection E as -> <-. injection E2 as <- <-.
+      assert (H' : bash_long_name (45 :: b :: r) = Some (b :: r, false)).
+      { clear -Hc. destruct b as [|q]; [reflexivity|]. do 7 (try (destruct q as [q|q|]; try reflexivity; try congruence)). }
+      rewrite H' in H. injection H as <- <-. right. repeat split; try discriminate. left.
+      unfold dash, starts. change (s2l "-") with [45]. cbn [prefixb]. apply N.eqb_neq in Hc. rewrite (N.eqb_sym 45 b), Hc. reflexivity.
+    + exfalso. destruct K as [Hd|E]; [|discriminate].
+      assert (a <> 45).
+      { intro; subst a. discriminate. }
+      clear -H H0. destruct a as [|q]; [discriminate|]. revert H. do 7 (try (destruct q as [q|q|]; try discriminate; try congruence)).
+Qed.
+
+Lemma lstrip_nodash n : dash n = false -> lstrip [45] n = n.
+Proof.
+  intro H. destruct (dash_false_cases n H) as [->|(c & cs & -> & Hn)]; [reflexivity|].
+  cbn [lstrip mem_ch existsb]. apply N.eqb_neq in Hn. rewrite Hn. reflexivity.
+Qed.
+
+Lemma long_sim : forall l s, bash_long l = Some (SString s) ->
+  exists l', shell_long l = Some l' /\ sh_short bash_cluster l' false false O = Some (SString s).
+Proof.
+  induction l as [l IH] using list_len_ind. intros s H. destruct l as [|x r]; [discriminate|].
+  destruct shell_tables as (T1 & T2 & T3 & T4).
+  cbn [bash_long] in H. cbn [shell_long].
+  destruct (bash_long_name x) as [[n two]|] eqn:BN.
+  - destruct (bash_long_name_inv x n two BN) as [(-> & -> & Hn)|(-> & -> & Hn & Hd)].
+    + (* --name *)
+      change (dash (45 :: 45 :: n)) with true. change (is "-" (45 :: 45 :: n)) with false.
+      rewrite (is_ddash_false_long n Hn). cbn [negb andb].
+      destruct (mem_str n BASH_LONG_NOARG) eqn:M1.
+      * apply mem_str_In in M1. pose proof (proj1 (forallb_forall _ _) T1 n M1) as F. cbv beta in F.
+        rewrite !andb_true_iff, !negb_true_iff in F. destruct F as [[F1 F2] F3].
+        change (lstrip [45] (45 :: 45 :: n)) with (lstrip [45] n). rewrite (lstrip_nodash n F3), F2, F1.
+        apply IH; [cbn [length]; lia|exact H].
+      * destruct (mem_str n BASH_LONG_ARG) eqn:M2.
+        -- apply mem_str_In in M2. pose proof (proj1 (forallb_forall _ _) T2 n M2) as F. cbv beta in F.
+           rewrite !andb_true_iff, !negb_true_iff in F. destruct F as [F1 F3].
+           change (lstrip [45] (45 :: 45 :: n)) with (lstrip [45] n). rewrite (lstrip_nodash n F3), F1.
+           destruct r as [|y r']; [discriminate|]. apply IH; [cbn [length]; lia|exact H].
+        -- destruct (mem_str n [S "help"; S "version"]); discriminate.
+    + (* -name or the word -- *)
+      destruct Hd as [Hd| ->].
+      * change (dash (45 :: n)) with true.
+        assert (X1 : is "-" (45 :: n) = false) by (destruct n; [congruence|reflexivity]).
+        assert (X2 : is "--" (45 :: n) = false).
+        { unfold is. destruct (str_eqb_spec (45 :: n) (s2l "--")) as [E|]; [|reflexivity]. injection E as ->. discriminate. }
+        rewrite X1, X2. cbn [negb andb].
+        change (lstrip [45] (45 :: n)) with (lstrip [45] n). rewrite (lstrip_nodash n Hd).
+        destruct (mem_str n BASH_LONG_NOARG) eqn:M1.
+        -- apply mem_str_In in M1. pose proof (proj1 (forallb_forall _ _) T1 n M1) as F. cbv beta in F.
+           rewrite !andb_true_iff, !negb_true_iff in F. destruct F as [[F1 F2] F3]. rewrite F2, F1.
+           apply IH; [cbn [length]; lia|exact H].
+        -- destruct (mem_str n BASH_LONG_ARG) eqn:M2.
+           ++ apply mem_str_In in M2. pose proof (proj1 (forallb_forall _ _) T2 n M2) as F. cbv beta in F.
+              rewrite !andb_true_iff, !negb_true_iff in F. destruct F as [F1 F3]. rewrite F1.
+              destruct r as [|y r']; [discriminate|]. apply IH; [cbn [length]; lia|exact H].
+           ++ destruct (mem_str n [S "help"; S "version"]); [discriminate|].
+              assert (N1 : mem_str n SHELL_LONG_WITH_ARG = false).
+              { destruct (mem_str n SHELL_LONG_WITH_ARG) eqn:E; [|reflexivity]. apply mem_str_In in E.
+                rewrite (proj1 (forallb_forall _ _) T4 n E) in M2. discriminate. }
+              assert (N2 : mem_str n SHELL_LONG_NO_ARG = false).
+              { destruct (mem_str n SHELL_LONG_NO_ARG) eqn:E; [|reflexivity]. apply mem_str_In in E.
+                rewrite (proj1 (forallb_forall _ _) T3 n E) in M1. discriminate. }
+              rewrite N1, N2.
+              assert (X3 : starts "--" (45 :: n) = false).
+              { unfold starts. change (s2l "--") with [45; 45]. destruct (dash_false_cases n Hd) as [->|(c & cs & -> & Hc)]; [reflexivity|].
+                cbn [prefixb]. apply N.eqb_neq in Hc. rewrite (N.eqb_sym 45 c), Hc. reflexivity. }
+              rewrite X3. eexists. split; [reflexivity|exact H].
+      * (* the word -- *) eexists. split; [reflexivity|exact H].
+  - (* not dash-shaped *)
+    assert (Y : dash x && negb (is "-" x) && negb (is "--" x) = false).
+    { pose proof (word_kind_inv x) as K. destruct (word_kind x) eqn:WK.
+      - subst x. reflexivity.
+      - destruct K as [-> Hb]. destruct body; [congruence|discriminate].
+      - destruct K as [-> (c & r' & -> & Hc)].
+        exfalso. clear -BN Hc. destruct c as [|q]; [discriminate|]. revert BN. do 7 (try (destruct q as [q|q|]; try discriminate; try congruence)).
+      - destruct K as [Hd| ->]; [rewrite Hd; reflexivity|reflexivity]. }
+    rewrite Y. eexists. split; [reflexivity|exact H].
+Qed.
+
+Lemma long_sim_gen : forall l act, act <> SNothing -> bash_long l = Some act ->
+  exists l', shell_long l = Some l' /\ sh_short bash_cluster l' false false O = Some act.
+Proof.
+  induction l as [l IH] using list_len_ind. intros act Hact H. destruct l as [|x r]; [exists []; split; [reflexivity|exact H]|].
+  destruct shell_tables as (T1 & T2 & T3 & T4).
+  cbn [bash_long] in H. cbn [shell_long].
+  destruct (bash_long_name x) as [[n two]|] eqn:BN.
+  - destruct (bash_long_name_inv x n two BN) as [(-> & -> & Hn)|(-> & -> & Hn & Hd)].
+    + (* --name *)
+      change (dash (45 :: 45 :: n)) with true. change (is "-" (45 :: 45 :: n)) with false.
+      rewrite (is_ddash_false_long n Hn). cbn [negb andb].
+      destruct (mem_str n BASH_LONG_NOARG) eqn:M1.
+      * apply mem_str_In in M1. pose proof (proj1 (forallb_forall _ _) T1 n M1) as F. cbv beta in F.
+        rewrite !andb_true_iff, !negb_true_iff in F. destruct F as [[F1 F2] F3].
+        change (lstrip [45] (45 :: 45 :: n)) with (lstrip [45] n). rewrite (lstrip_nodash n F3), F2, F1.
+        apply IH; [cbn [length]; lia|exact Hact|exact H].
+      * destruct (mem_str n BASH_LONG_ARG) eqn:M2.
+        -- apply mem_str_In in M2. pose proof (proj1 (forallb_forall _ _) T2 n M2) as F. cbv beta in F.
+           rewrite !andb_true_iff, !negb_true_iff in F. destruct F as [F1 F3].
+           change (lstrip [45] (45 :: 45 :: n)) with (lstrip [45] n). rewrite (lstrip_nodash n F3), F1.
+           destruct r as [|y r']; [discriminate|]. apply IH; [cbn [length]; lia|exact Hact|exact H].
+        -- destruct (mem_str n [S "help"; S "version"]); [injection H as <-; congruence|discriminate].
+    + (* -name or the word -- *)
+      destruct Hd as [Hd| ->].
+      * change (dash (45 :: n)) with true.
+        assert (X1 : is "-" (45 :: n) = false) by (destruct n; [congruence|reflexivity]).
+        assert (X2 : is "--" (45 :: n) = false).
+        { unfold is. destruct (str_eqb_spec (45 :: n) (s2l "--")) as [E|]; [|reflexivity]. injection E as ->. discriminate. }
+        rewrite X1, X2. cbn [negb andb].
+        change (lstrip [45] (45 :: n)) with (lstrip [45] n). rewrite (lstrip_nodash n Hd).
+        destruct (mem_str n BASH_LONG_NOARG) eqn:M1.
+        -- apply mem_str_In in M1. pose proof (proj1 (forallb_forall _ _) T1 n M1) as F. cbv beta in F.
+           rewrite !andb_true_iff, !negb_true_iff in F. destruct F as [[F1 F2] F3]. rewrite F2, F1.
+           apply IH; [cbn [length]; lia|exact Hact|exact H].
+        -- destruct (mem_str n BASH_LONG_ARG) eqn:M2.
+           ++ apply mem_str_In in M2. pose proof (proj1 (forallb_forall _ _) T2 n M2) as F. cbv beta in F.
+              rewrite !andb_true_iff, !negb_true_iff in F. destruct F as [F1 F3]. rewrite F1.
+              destruct r as [|y r']; [discriminate|]. apply IH; [cbn [length]; lia|exact Hact|exact H].
+           ++ destruct (mem_str n [S "help"; S "version"]); [injection H as <-; congruence|].
+              assert (N1 : mem_str n SHELL_LONG_WITH_ARG = false).
+              { destruct (mem_str n SHELL_LONG_WITH_ARG) eqn:E; [|reflexivity]. apply mem_str_In in E.
+                rewrite (proj1 (forallb_forall _ _) T4 n E) in M2. discriminate. }
+              assert (N2 : mem_str n SHELL_LONG_NO_ARG = false).
+              { destruct (mem_str n SHELL_LONG_NO_ARG) eqn:E; [|reflexivity]. apply mem_str_In in E.
+                rewrite (proj1 (forallb_forall _ _) T3 n E) in M1. discriminate. }
+              rewrite N1, N2.
+              assert (X3 : starts "--" (45 :: n) = false).
+              { unfold starts. change (s2l "--") with [45; 45]. destruct (dash_false_cases n Hd) as [->|(c & cs & -> & Hc)]; [reflexivity|].
+                cbn [prefixb]. apply N.eqb_neq in Hc. rewrite (N.eqb_sym 45 c), Hc. reflexivity. }
+              rewrite X3. eexists. split; [reflexivity|exact H].
+      * (* the word -- *) eexists. split; [reflexivity|exact H].
+  - (* not dash-shaped *)
+    assert (Y : dash x && negb (is "-" x) && negb (is "--" x) = false).
+    { pose proof (word_kind_inv x) as K. destruct (word_kind x) eqn:WK.
+      - subst x. reflexivity.
+      - destruct K as [-> Hb]. destruct body; [congruence|discriminate].
+      - destruct K as [-> (c & r' & -> & Hc)].
+        exfalso. clear -BN Hc. destruct c as [|q]; [discriminate|]. revert BN. do 7 (try (destruct q as [q|q|]; try discriminate; try congruence)).
+      - destruct K as [Hd| ->]; [rewrite Hd; reflexivity|reflexivity]. }
+    rewrite Y. eexists. split; [reflexivity|exact H].
+Qed.
+
+
+Lemma short_sim_ask cl : cluster_ok cl -> forall l wc ws owed act,
+  sh_short cl l wc ws owed = Some act -> (forall s, act <> SString s) -> fst (shell_short l wc owed) = false.
+Proof.
+  intros Hcl l. induction l as [|x r IH]; intros wc ws owed act H Hn.
+  - cbn [sh_short shell_short] in *. destruct owed; [|discriminate]. unfold bash_finish in H.
+    destruct wc; [discriminate|reflexivity].
+  - assert (Fin : forall ops, bash_finish wc ws ops = Some act -> wc = false).
+    { intros ops E. unfold bash_finish in E. destruct wc; [|reflexivity]. destruct ops; [discriminate|]. injection E as <-. exfalso. eapply Hn. reflexivity. }
+    cbn [sh_short shell_short] in *. destruct owed as [|k].
+    + change (is "-" x) with (str_eqb x [45]). change (is "--" x) with (str_eqb x [45; 45]).
+      destruct (str_eqb x [45] || str_eqb x [45; 45]); [exact (Fin _ H)|].
+      destruct x as [|sign [|c cs]]; try exact (Fin _ H).
+      destruct (N.eqb sign 45 || N.eqb sign 43) eqn:Sg; [|exact (Fin _ H)].
+      destruct (cl (c :: cs)) as [[[hc hs] n]|] eqn:C; [|discriminate].
+      destruct (Hcl _ _ _ _ C) as (E1 & E2 & E3). subst hc n.
+      assert (Z : (count_ch 111 (sign :: c :: cs) + count_ch 79 (sign :: c :: cs) = count_ch 111 (c :: cs) + count_ch 79 (c :: cs))%nat).
+      { rewrite (count_ch_cons 111 sign), (count_ch_cons 79 sign).
+        apply orb_true_iff in Sg. destruct Sg as [Sg|Sg]; apply N.eqb_eq in Sg; subst sign; reflexivity. }
+      rewrite Z. eapply IH; eassumption.
+    + destruct (optname_ok x); [|discriminate]. eapply IH; eassumption.
+Qed.
+(* bash FILE ..., bash (no -c), bash -s: the handler never delegates anything - it asks *)
+Theorem bash_script_asks args act :
+  bash_exec args = Some act -> (forall s, act <> SString s) -> act <> SNothing ->
+  shell_h (s2l "bash" :: args) = HAsk.
+Proof.
+  intros H Hs Hn. unfold bash_exec in H. destruct (long_sim_gen args act Hn H) as (l' & L & Sh).
+  pose proof (short_sim_ask bash_cluster bash_cluster_ok l' false false O act Sh Hs) as E.
+  unfold shell_h. destruct args as [|a r]; [reflexivity|].
+  assert (Sp : (match a :: r with [t] => is "--help" t || is "--version" t | _ => false end) = false).
+  { destruct r; [|reflexivity]. destruct (is "--help" a) eqn:E1.
+    - unfold is in E1. apply str_eqb_eq in E1. subst a. cbn in H. injection H as <-. congruence.
+    - destruct (is "--version" a) eqn:E2; [|reflexivity]. unfold is in E2. apply str_eqb_eq in E2. subst a.
+      cbn in H. injection H as <-. congruence. }
+  rewrite Sp, L. destruct (shell_short l' false O) as [b rest]. cbn [fst] in E. subst b. reflexivity.
+Qed.
+
+(* bash: whenever bash would run a command string, that string is what the handler delegates;
+   (in particular: an operand before -c, or no -c at all, never yields a delegation of some later word) *)
+Theorem bash_extract_general args s :
+  bash_exec args = Some (SString s) ->
+  shell_h (s2l "bash" :: args) = match s with [] => HAsk | _ => HString s end.
+Proof.
+  intro H. unfold bash_exec in H. destruct (long_sim args s H) as (l' & L & Sh).
+  destruct (short_sim bash_cluster bash_cluster_ok l' false false O s Sh) as [rest E].
+  unfold shell_h. destruct args as [|a r]; [discriminate|].
+  assert (Sp : (match a :: r with [t] => is "--help" t || is "--version" t | _ => false end) = false).
+  { destruct r; [|reflexivity]. destruct (is "--help" a) eqn:E1.
+    - unfold is in E1. apply str_eqb_eq in E1. subst a. discriminate.
+    - destruct (is "--version" a) eqn:E2; [|reflexivity]. unfold is in E2. apply str_eqb_eq in E2. subst a. discriminate. }
+  rewrite Sp, L, E. destruct s; reflexivity.
+Qed.
+
+(* sh (dash): it has no long options, and no word the handler would take for one is accepted by dash *)
+Lemma dash_rejects_long_names :
+  forallb (fun n => is_none (dash_cluster n)) (SHELL_LONG_WITH_ARG ++ SHELL_LONG_NO_ARG) = true.
+Proof. vm_compute. reflexivity. Qed.
+
+Lemma dash_long_noop l act : sh_short dash_cluster l false false O = Some act -> shell_long l = Some l.
+Proof.
+  intro H. destruct l as [|x r]; [reflexivity|]. cbn [shell_long].
+  destruct (dash x && negb (is "-" x) && negb (is "--" x)) eqn:C; [|reflexivity].
+  rewrite !andb_true_iff, !negb_true_iff in C. destruct C as [[C1 C2] C3].
+  destruct x as [|a t]; [discriminate|].
+  assert (a = 45). { unfold dash, starts in C1. change (s2l "-") with [45] in C1. cbn [prefixb] in C1. rewrite andb_true_r in C1. apply N.eqb_eq in C1. congruence. }
+  subst a. destruct t as [|c cs]; [discriminate|].
+  cbn [sh_short] in H. change (str_eqb (45 :: c :: cs) [45]) with false in H.
+  change (str_eqb (45 :: c :: cs) [45; 45]) with (is "--" (45 :: c :: cs)) in H. rewrite C3 in H. cbn [orb] in H.
+  change (N.eqb 45 45 || N.eqb 45 43) with true in H. cbv iota in H.
+  destruct (dash_cluster (c :: cs)) as [[[hc hs] n]|] eqn:DC; [|discriminate].
+  destruct (dash_cluster_ok _ _ _ _ DC) as (_ & _ & E3).
+  assert (Hc : N.eqb 45 c = false). { unfold mem_ch in E3. cbn [existsb] in E3. apply orb_false_iff in E3 as [E3 _]. exact E3. }
+  assert (L : lstrip [45] (45 :: c :: cs) = c :: cs).
+  { cbn [lstrip mem_ch existsb]. rewrite (N.eqb_sym c 45), Hc. cbn [orb]. reflexivity. }
+  rewrite L.
+  assert (NT : mem_str (c :: cs) (SHELL_LONG_WITH_ARG ++ SHELL_LONG_NO_ARG) = false).
+  { destruct (mem_str (c :: cs) (SHELL_LONG_WITH_ARG ++ SHELL_LONG_NO_ARG)) eqn:E; [|reflexivity].
+    apply mem_str_In in E. pose proof (proj1 (forallb_forall _ _) dash_rejects_long_names _ E) as F. cbv beta in F.
+    rewrite DC in F. discriminate. }
+  unfold mem_str in NT. rewrite existsb_app in NT. apply orb_false_iff in NT as [N1 N2].
+  unfold mem_str. rewrite N1, N2.
+  unfold starts. change (s2l "--") with [45; 45]. cbn [prefixb]. rewrite Hc. reflexivity.
+Qed.
+
+Theorem dash_extract_general base args s :
+  In base [s2l "sh"; s2l "dash"] -> dash_exec args = Some (SString s) ->
+  shell_h (base :: args) = match s with [] => HAsk | _ => HString s end.
+Proof.
+  intros Hb H. unfold dash_exec in H.
+  pose proof (dash_long_noop args _ H) as L.
+  destruct (short_sim dash_cluster dash_cluster_ok args false false O s H) as [rest E].
+  unfold shell_h. destruct args as [|a r]; [discriminate|].
+  assert (Sp : (match a :: r with [t] => is "--help" t || is "--version" t | _ => false end) = false).
+  { destruct r; [|reflexivity]. destruct (is "--help" a) eqn:E1.
+    - unfold is in E1. apply str_eqb_eq in E1. subst a. discriminate.
+    - destruct (is "--version" a) eqn:E2; [|reflexivity]. unfold is in E2. apply str_eqb_eq in E2. subst a. discriminate. }
+  rewrite Sp, L, E. destruct s; reflexivity.
+Qed.
+
+Theorem dash_script_asks base args act :
+  In base [s2l "sh"; s2l "dash"] -> dash_exec args = Some act -> (forall s, act <> SString s) ->
+  shell_h (base :: args) = HAsk.
+Proof.
+  intros Hb H Hs. unfold dash_exec in H.
+  pose proof (dash_long_noop args _ H) as L.
+  pose proof (short_sim_ask dash_cluster dash_cluster_ok args false false O act H Hs) as E.
+  unfold shell_h. destruct args as [|a r]; [reflexivity|].
+  assert (Sp : (match a :: r with [t] => is "--help" t || is "--version" t | _ => false end) = false).
+  { destruct r; [|reflexivity]. destruct (is "--help" a) eqn:E1.
+    - unfold is in E1. apply str_eqb_eq in E1. subst a. discriminate.
+    - destruct (is "--version" a) eqn:E2; [|reflexivity]. unfold is in E2. apply str_eqb_eq in E2. subst a. discriminate. }
+  rewrite Sp, L. destruct (shell_short (a :: r) false O) as [b rest]. cbn [fst] in E. subst b. reflexivity.
+Qed.
+
+Lemma shell_formerly_refuted :
+  modelled (w ["bash"; "script.sh"; "-c"; "ls"]) = Some HAsk /\
+  modelled (w ["sh"; "script.sh"; "-c"; "ls"]) = Some HAsk /\
+  modelled (w ["bash"; "-rcfile"; "ls"; "-c"; "rm x"]) = Some (HString (s2l "rm x")) /\
+  modelled (w ["bash"; "-c"; "-e"; "zap"]) = Some (HString (s2l "zap")) /\
+  modelled (w ["bash"; "script.sh"; "--help"]) = Some HAsk.
+Proof. vm_compute. repeat split; reflexivity. Qed.
+
+(* Legacy (before 53c5c7c): the word after the first word containing c *)
+Definition legacy_is_c_flag (t : str) : bool := dash t && negb (starts "--" t) && mem_ch 99 t.
+Fixpoint legacy_after_c (l : list str) : option (list str) :=
+  match l with [] => None | t :: r => if legacy_is_c_flag t then Some r else legacy_after_c r end.
+Lemma legacy_shell_refuted :
+  legacy_after_c (w ["bash"; "script.sh"; "-c"; "ls"]) = Some (w ["ls"]) /\
+  shell_exec (w ["bash"; "script.sh"; "-c"; "ls"]) = Some (SFile (s2l "script.sh")).
+Proof. vm_compute. split; reflexivity. Qed.
 
 (* ================================================================== find *)
 Definition find_word_ok (x : str) : bool :=
   negb (mem_str x FIND_TERMINATORS) && negb (mem_str x FIND_OK_FLAGS) && negb (is "-delete" x)
-  && negb (str_eqb x (S ";")) && negb (str_eqb x (S "+")).
+  && negb (str_eqb x (S ";")).
+(* no + right after {} inside the command (there it would end the clause); prev: the previous word was {} *)
+Fixpoint no_plus_after_braces (prev : bool) (c : list str) : bool :=
+  match c with
+  | [] => true
+  | x :: r => negb (is "+" x && prev) && no_plus_after_braces (is "{}" x) r
+  end.
+Definition acc_b (acc : list str) : bool := match acc with l :: _ => is "{}" l | [] => false end.
 Definition plain_path (p : str) : bool := negb (dash p) && negb (mem_str p (map s2l ["("; ")"; "!"; ","])).
 
 Lemma find_clause_h c : forall acc t rest,
-  forallb find_word_ok c = true -> mem_str t FIND_TERMINATORS = true -> rev acc ++ c <> [] ->
+  forallb find_word_ok c = true -> no_plus_after_braces (acc_b acc) c = true ->
+  mem_str t FIND_TERMINATORS = true -> rev acc ++ c <> [] ->
   find_clauses (c ++ t :: rest) (Some acc) =
   match find_clauses rest None with Some cs => Some ((rev acc ++ c) :: cs) | None => None end.
 Proof.
-  induction c as [|x c IH]; intros acc t rest Hc Ht Hne.
-  - cbn [app find_clauses]. rewrite Ht. rewrite app_nil_r in *. destruct acc as [|a acc].
+  induction c as [|x c IH]; intros acc t rest Hc Hp Ht Hne.
+  - cbn [app find_clauses]. unfold find_ends. rewrite Ht. cbn [orb]. rewrite app_nil_r in *. destruct acc as [|a acc].
     + cbn in Hne. congruence.
     + reflexivity.
   - cbn [forallb] in Hc. apply andb_true_iff in Hc as [Hx Hc]. unfold find_word_ok in Hx.
-    rewrite !andb_true_iff, !negb_true_iff in Hx. destruct Hx as [[[[X1 X2] X3] X4] X5].
-    cbn [app find_clauses]. rewrite X1. rewrite IH; try assumption.
+    rewrite !andb_true_iff, !negb_true_iff in Hx. destruct Hx as [[[X1 X2] X3] X4].
+    cbn [no_plus_after_braces] in Hp. apply andb_true_iff in Hp as [P1 P2]. apply negb_true_iff in P1.
+    cbn [app find_clauses]. unfold find_ends. rewrite X1.
+    replace (match acc with | [] => false | last :: _ => is "{}" last end) with (acc_b acc) by (destruct acc; reflexivity).
+    rewrite P1. cbn [orb]. rewrite IH; try assumption.
     + cbn [rev]. rewrite <- app_assoc. reflexivity.
     + cbn [rev]. rewrite <- app_assoc. cbn [app]. destruct (rev acc); discriminate.
-Qed.
-
-Lemma dash_false_mem p T : dash p = false -> forallb dash T = true -> mem_str p T = false.
-Proof.
-  intros Hp HT. destruct (mem_str p T) eqn:E; [|reflexivity]. apply mem_str_In in E.
-  rewrite (proj1 (forallb_forall _ _) HT p E) in Hp. discriminate.
 Qed.
 
 Lemma find_paths_h paths : forall l, forallb plain_path paths = true ->
@@ -520,10 +863,10 @@ Lemma find_blocked_app a b : find_blocked (a ++ b) = find_blocked a || find_bloc
 Proof. unfold find_blocked. apply existsb_app. Qed.
 
 Lemma find_extract_h paths c :
-  forallb plain_path paths = true -> forallb find_word_ok c = true -> c <> [] ->
+  forallb plain_path paths = true -> forallb find_word_ok c = true -> no_plus_after_braces false c = true -> c <> [] ->
   find_h (s2l "find" :: paths ++ s2l "-exec" :: c ++ [s2l ";"]) = HWords [c] false.
 Proof.
-  intros Hp Hc Hne. unfold find_h.
+  intros Hp Hc Hq Hne. unfold find_h.
   assert (B : find_blocked (s2l "find" :: paths ++ s2l "-exec" :: c ++ [s2l ";"]) = false).
   { change (s2l "find" :: paths ++ s2l "-exec" :: c ++ [s2l ";"]) with ([s2l "find"] ++ paths ++ [s2l "-exec"] ++ c ++ [s2l ";"]).
     rewrite !find_blocked_app.
@@ -539,7 +882,7 @@ Proof.
     assert (C : find_blocked c = false).
     { unfold find_blocked. apply not_true_is_false. intro E. apply existsb_exists in E as [x [Hx E]].
       pose proof (proj1 (forallb_forall _ _) Hc x Hx) as Q. unfold find_word_ok in Q.
-      rewrite !andb_true_iff, !negb_true_iff in Q. destruct Q as [[[[_ Q2] Q3] _] _].
+      rewrite !andb_true_iff, !negb_true_iff in Q. destruct Q as [[[_ Q2] Q3] _].
       rewrite Q2, Q3 in E. discriminate. }
     rewrite P, C. reflexivity. }
   rewrite B.
@@ -570,15 +913,17 @@ Proof.
 Qed.
 
 Lemma find_spec_clause c : forall acc b,
-  forallb find_word_ok c = true -> rev acc ++ c <> [] ->
+  forallb find_word_ok c = true -> no_plus_after_braces b c = true -> rev acc ++ c <> [] ->
   find_run (c ++ [S ";"]) (FClause acc b) = Some [rev acc ++ c].
 Proof.
-  induction c as [|x c IH]; intros acc b Hc Hne.
+  induction c as [|x c IH]; intros acc b Hc Hp Hne.
   - cbn [app find_run]. change (str_eqb (S ";") (S ";")) with true. cbn [orb]. rewrite app_nil_r in *.
     destruct acc; [cbn in Hne; congruence|reflexivity].
   - cbn [forallb] in Hc. apply andb_true_iff in Hc as [Hx Hc]. unfold find_word_ok in Hx.
-    rewrite !andb_true_iff, !negb_true_iff in Hx. destruct Hx as [[[[X1 X2] X3] X4] X5].
-    cbn [app find_run]. rewrite X4, X5. cbn [orb andb]. rewrite IH; try assumption.
+    rewrite !andb_true_iff, !negb_true_iff in Hx. destruct Hx as [[[X1 X2] X3] X4].
+    cbn [no_plus_after_braces] in Hp. apply andb_true_iff in Hp as [P1 P2]. apply negb_true_iff in P1.
+    cbn [app find_run]. rewrite X4. change (str_eqb x (S "+")) with (is "+" x). rewrite P1. cbn [orb].
+    change (str_eqb x (S "{}")) with (is "{}" x). rewrite IH; try assumption.
     + cbn [rev]. rewrite <- app_assoc. reflexivity.
     + cbn [rev]. rewrite <- app_assoc. cbn [app]. destruct (rev acc); discriminate.
 Qed.
@@ -597,10 +942,10 @@ Proof.
 Qed.
 
 Lemma find_extract_spec paths c :
-  forallb plain_path paths = true -> forallb find_word_ok c = true -> c <> [] ->
+  forallb plain_path paths = true -> forallb find_word_ok c = true -> no_plus_after_braces false c = true -> c <> [] ->
   find_exec (paths ++ s2l "-exec" :: c ++ [s2l ";"]) = Some [c].
 Proof.
-  intros Hp Hc Hne. unfold find_exec. destruct paths as [|p ps].
+  intros Hp Hc Hq Hne. unfold find_exec. destruct paths as [|p ps].
   - cbn [app]. change (find_run (s2l "-exec" :: c ++ [s2l ";"]) FLead) with (find_run (c ++ [S ";"]) (FClause [] false)).
     apply (find_spec_clause c [] false); assumption.
   - rewrite find_spec_paths by (assumption || discriminate).
@@ -608,41 +953,33 @@ Proof.
     apply (find_spec_clause c [] false); assumption.
 Qed.
 
-(* a lone + is an ordinary argument for find unless it follows {} ; the handler ends the clause there *)
-Lemma find_extract_refuted :
-  modelled (w ["find"; "."; "-exec"; "env"; "-u"; "+"; "rm"; "x"; ";"]) = Some (HWords [w ["env"; "-u"]] false) /\
+
+(* the spelling that was mis-read before b4cdef6: a lone + that does not follow {} *)
+Lemma find_formerly_refuted :
+  modelled (w ["find"; "."; "-exec"; "env"; "-u"; "+"; "rm"; "x"; ";"]) = Some (HWords [w ["env"; "-u"; "+"; "rm"; "x"]] false) /\
   wrapper_exec (w ["find"; "."; "-exec"; "env"; "-u"; "+"; "rm"; "x"; ";"]) = Some [w ["env"; "-u"; "+"; "rm"; "x"]].
 Proof. vm_compute. split; reflexivity. Qed.
 
 (* ================================================================== env *)
-Lemma dash_false_prefix p a : dash a = false -> prefixb (45 :: p) a = false.
-Proof.
-  intro H. destruct (dash_false_cases a H) as [->|(c & cs & -> & Hn)]; [reflexivity|].
-  cbn [prefixb]. apply N.eqb_neq in Hn. rewrite N.eqb_sym, Hn. reflexivity.
-Qed.
-
-Lemma dash_false_not_ddash a : dash a = false -> is "--" a = false.
-Proof.
-  intro H. destruct (dash_false_cases a H) as [->|(c & cs & -> & Hn)]; [reflexivity|].
-  unfold is. destruct (str_eqb_spec (c :: cs) (s2l "--")) as [E|]; [|reflexivity].
-  injection E as E _. subst c. exfalso. apply Hn. reflexivity.
-Qed.
-
 Lemma dash_false_not_dashword a : dash a = false -> str_eqb a [45] = false.
 Proof.
   intro H. destruct (dash_false_cases a H) as [->|(c & cs & -> & Hn)]; [reflexivity|].
   cbn [str_eqb]. apply N.eqb_neq in Hn. rewrite Hn. reflexivity.
 Qed.
 
+Lemma dash_false_starts p a : dash a = false -> prefixb (45 :: p) a = false.
+Proof.
+  intro H. destruct (dash_false_cases a H) as [->|(c & cs & -> & Hn)]; [reflexivity|].
+  cbn [prefixb]. apply N.eqb_neq in Hn. rewrite N.eqb_sym, Hn. reflexivity.
+Qed.
+
 (* one step of the handler's scan over a word that does not start with a dash *)
 Lemma env_scan_nodash a r : dash a = false ->
   env_scan (a :: r) = if has_eq a then env_scan r else HWords [a :: r] false.
 Proof.
-  intro H. cbn [env_scan]. rewrite (dash_false_not_ddash a H).
-  rewrite (dash_false_mem a ENV_SPLIT_FLAGS H) by (vm_compute; reflexivity). cbn [andb].
-  change SPLIT_EQ with (45 :: skipn 1 SPLIT_EQ). rewrite (dash_false_prefix _ a H).
-  unfold starts. change (s2l "-S") with [45; 83]. rewrite (dash_false_prefix _ a H). cbn [andb].
-  rewrite (dash_false_mem a ENV_FLAGS_WITH_ARG H) by (vm_compute; reflexivity). rewrite H. reflexivity.
+  intro H. cbn [env_scan]. rewrite (dash_false_not_ddash_early a H).
+  unfold starts. change (s2l "--") with [45; 45]. rewrite (dash_false_starts _ a H). rewrite H. cbn [andb].
+  change (is "-" a) with (str_eqb a [45]). rewrite (dash_false_not_dashword a H). reflexivity.
 Qed.
 
 Definition assign_word (a : str) : bool := has_eq a && negb (dash a).
@@ -664,7 +1001,42 @@ Proof.
   apply andb_true_iff in Ha as [He _]. cbn [app drop_assign]. rewrite He. apply IH, Hr.
 Qed.
 
-(* env [NAME=VALUE]... COMMAND ARG... : handler and env agree, for every command *)
+Notation gx := (getopt_x (fun _ => false) env_is_S env_spec).
+
+Lemma gx_operands assigns c0 cs :
+  forallb assign_word assigns = true -> dash c0 = false -> gx (assigns ++ c0 :: cs) = GOk [] (assigns ++ c0 :: cs).
+Proof.
+  intros Ha Hd. destruct assigns as [|a r].
+  - cbn [app getopt_x]. rewrite (word_kind_operand c0 Hd). reflexivity.
+  - cbn [forallb] in Ha. apply andb_true_iff in Ha as [Ha _]. unfold assign_word in Ha.
+    apply andb_true_iff in Ha as [_ Ha]. apply negb_true_iff in Ha.
+    cbn [app getopt_x]. rewrite (word_kind_operand a Ha). reflexivity.
+Qed.
+
+Lemma env_tail_spec o assigns c0 cs :
+  help_or_version o = false -> env_opts_ok o = true -> has_short (c1 "0") o = false -> has_long (S "null") o = false ->
+  forallb assign_word assigns = true -> dash c0 = false -> has_eq c0 = false ->
+  (if help_or_version o then Some []
+   else if negb (env_opts_ok o) then None
+   else let ops := match assigns ++ c0 :: cs with w0 :: r => if str_eqb w0 [45] then r else assigns ++ c0 :: cs | [] => [] end in
+        match drop_assign ops with
+        | [] => Some []
+        | cmd => if has_short (c1 "0") o || has_long (S "null") o then None else Some [cmd]
+        end) = Some [c0 :: cs].
+Proof.
+  intros O1 O2 O3 O4 Ha Hd He. rewrite O1, O2. cbn [negb].
+  assert (F : (match assigns ++ c0 :: cs with w0 :: r => if str_eqb w0 [45] then r else assigns ++ c0 :: cs | [] => [] end)
+              = assigns ++ c0 :: cs).
+  { destruct assigns as [|a r].
+    - cbn [app]. rewrite (dash_false_not_dashword c0 Hd). reflexivity.
+    - cbn [forallb] in Ha. apply andb_true_iff in Ha as [Ha _]. unfold assign_word in Ha.
+      apply andb_true_iff in Ha as [_ Ha]. apply negb_true_iff in Ha.
+      cbn [app]. rewrite (dash_false_not_dashword a Ha). reflexivity. }
+  cbv zeta. rewrite F. rewrite drop_assign_app by exact Ha. cbn [drop_assign]. unfold has_eq in He. rewrite He.
+  rewrite O3, O4. reflexivity.
+Qed.
+
+(* env [NAME=VALUE]... COMMAND ARG... *)
 Lemma env_extract assigns c0 cs :
   forallb assign_word assigns = true -> dash c0 = false -> has_eq c0 = false ->
   env_h (s2l "env" :: assigns ++ c0 :: cs) = HWords [c0 :: cs] false /\
@@ -673,252 +1045,127 @@ Proof.
   intros Ha Hd He. split.
   - unfold env_h. cbn [tl']. rewrite env_scan_assigns by exact Ha. rewrite env_scan_nodash by exact Hd.
     rewrite He. reflexivity.
-  - unfold env_exec. cbn [env_exec_f].
-    assert (G : getopt_x (fun _ => false) env_is_S env_spec (assigns ++ c0 :: cs) = GOk [] (assigns ++ c0 :: cs)).
-    { destruct assigns as [|a r].
-      - cbn [app getopt_x]. rewrite (word_kind_operand c0 Hd). reflexivity.
-      - cbn [forallb] in Ha. apply andb_true_iff in Ha as [Ha _]. unfold assign_word in Ha.
-        apply andb_true_iff in Ha as [_ Ha]. apply negb_true_iff in Ha.
-        cbn [app getopt_x]. rewrite (word_kind_operand a Ha). reflexivity. }
-    rewrite G. change (help_or_version []) with false. change (env_opts_ok []) with true. cbv iota. cbn [negb].
-    assert (F : (match assigns ++ c0 :: cs with w0 :: r => if str_eqb w0 [45] then r else assigns ++ c0 :: cs | [] => [] end)
-                = assigns ++ c0 :: cs).
-    { destruct assigns as [|a r].
-      - cbn [app]. rewrite (dash_false_not_dashword c0 Hd). reflexivity.
-      - cbn [forallb] in Ha. apply andb_true_iff in Ha as [Ha _]. unfold assign_word in Ha.
-        apply andb_true_iff in Ha as [_ Ha]. apply negb_true_iff in Ha.
-        cbn [app]. rewrite (dash_false_not_dashword a Ha). reflexivity. }
-    rewrite F. rewrite drop_assign_app by exact Ha. cbn [drop_assign]. unfold has_eq in He. rewrite He.
-    reflexivity.
+  - unfold env_exec. cbn [env_exec_f]. rewrite (gx_operands assigns c0 cs Ha Hd).
+    apply (env_tail_spec [] assigns c0 cs); auto.
 Qed.
 
-(* clusters ending in a value flag and abbreviated long options are read differently by env *)
-Lemma env_extract_refuted :
-  (modelled (w ["env"; "-iu"; "ls"; "rm"; "x"]) = Some (HWords [w ["ls"; "rm"; "x"]] false) /\
+Lemma env_formerly_refuted :
+  (modelled (w ["env"; "-iu"; "ls"; "rm"; "x"]) = Some (HWords [w ["rm"; "x"]] false) /\
    wrapper_exec (w ["env"; "-iu"; "ls"; "rm"; "x"]) = Some [w ["rm"; "x"]]) /\
-  (modelled (w ["env"; "--uns"; "ls"; "rm"; "x"]) = Some (HWords [w ["ls"; "rm"; "x"]] false) /\
-   wrapper_exec (w ["env"; "--uns"; "ls"; "rm"; "x"]) = Some [w ["rm"; "x"]]).
+  (modelled (w ["env"; "--uns"; "ls"; "rm"; "x"]) = Some (HWords [w ["rm"; "x"]] false) /\
+   wrapper_exec (w ["env"; "--uns"; "ls"; "rm"; "x"]) = Some [w ["rm"; "x"]]) /\
+  modelled (w ["env"; "--split=rm x"]) = Some (HString (s2l "rm x")).
 Proof. vm_compute. repeat split; reflexivity. Qed.
 
+(* Legacy (before 23c5075): a dash word that is not in the table is one word *)
+Fixpoint legacy_env_scan (l : list str) : list str :=
+  match l with
+  | [] => []
+  | t :: r => if mem_str t (map s2l ["-u"; "--unset"; "-C"; "--chdir"]) then match r with [] => [] | _ :: r' => legacy_env_scan r' end
+              else if dash t || has_eq t then legacy_env_scan r else l
+  end.
+Lemma legacy_env_refuted :
+  legacy_env_scan (w ["-iu"; "ls"; "rm"; "x"]) = w ["ls"; "rm"; "x"] /\ env_exec (w ["-iu"; "ls"; "rm"; "x"]) = Some [w ["rm"; "x"]].
+Proof. vm_compute. split; reflexivity. Qed.
+
 (* ================================================================== xargs *)
+(* without a replace option the handler judges the command with one more, unknown, argument *)
 Lemma xargs_extract c0 cs :
   dash c0 = false -> xargs_unsafe (c0 :: cs) = false ->
-  xargs_h (s2l "xargs" :: c0 :: cs) = HWords [c0 :: cs] false /\ xargs_exec (c0 :: cs) = Some [c0 :: cs].
+  xargs_h (s2l "xargs" :: c0 :: cs) = HWords [(c0 :: cs) ++ [PLACEHOLDER]] false /\ xargs_exec (c0 :: cs) = Some [c0 :: cs].
 Proof.
   intros Hd Hu. split.
-  - unfold xargs_h. rewrite Hu. cbn [xargs_skip]. rewrite (dash_false_not_ddash c0 Hd), Hd. reflexivity.
+  - unfold xargs_h. rewrite Hu. cbn [xargs_skip]. rewrite (dash_false_not_ddash_early c0 Hd), Hd. cbn [negb].
+    rewrite Nat.sub_diag. reflexivity.
   - unfold xargs_exec, getopt_plus. cbn [getopt_x]. rewrite (word_kind_operand c0 Hd). reflexivity.
 Qed.
 
 Lemma xargs_extract_ddash c :
   c <> [] ->
-  xargs_h (s2l "xargs" :: s2l "--" :: c) = HWords [c] false /\ xargs_exec (s2l "--" :: c) = Some [c].
+  xargs_h (s2l "xargs" :: s2l "--" :: c) = HWords [c ++ [PLACEHOLDER]] false /\ xargs_exec (s2l "--" :: c) = Some [c].
 Proof.
-  intro H. destruct c as [|c0 cs]; [congruence|]. split; reflexivity.
+  intro H. destruct c as [|c0 cs]; [congruence|]. split; [|reflexivity].
+  unfold xargs_h. change (xargs_unsafe (s2l "--" :: c0 :: cs)) with false. cbv iota.
+  change (xargs_skip (s2l "--" :: c0 :: cs)) with (c0 :: cs). cbv iota.
+  replace (length (s2l "--" :: c0 :: cs) - length (c0 :: cs))%nat with 1%nat by (cbn [length]; lia).
+  reflexivity.
 Qed.
 
-Lemma xargs_extract_refuted :
-  (modelled (w ["xargs"; "-0I"; "ls"; "rm"; "x"]) = Some (HWords [w ["ls"; "rm"; "x"]] false) /\
+Lemma xargs_formerly_refuted :
+  (modelled (w ["xargs"; "-0I"; "ls"; "rm"; "x"]) = Some (HWords [w ["rm"; "x"]] false) /\
    wrapper_exec (w ["xargs"; "-0I"; "ls"; "rm"; "x"]) = Some [w ["rm"; "x"]]) /\
-  (modelled (w ["xargs"; "--process-slot"; "ls"; "rm"; "x"]) = Some (HWords [w ["ls"; "rm"; "x"]] false) /\
+  (modelled (w ["xargs"; "--process-slot"; "ls"; "rm"; "x"]) = Some (HWords [w ["rm"; "x"; "{}"]] false) /\
    wrapper_exec (w ["xargs"; "--process-slot"; "ls"; "rm"; "x"]) = Some [w ["rm"; "x"]]) /\
-  (* GNU -e takes only an attached argument: pinned by the test suite of /repo *)
-  (modelled (w ["xargs"; "-e"; "STOP"; "head"]) = Some (HWords [w ["head"]] false) /\
-   wrapper_exec (w ["xargs"; "-e"; "STOP"; "head"]) = Some [w ["STOP"; "head"]]).
+  (* a bare launcher: the appended argument makes the handler judge  env {}  - an unknown command - not  env *)
+  modelled (w ["xargs"; "env"]) = Some (HWords [w ["env"; "{}"]] false).
 Proof. vm_compute. repeat split; reflexivity. Qed.
 
+(* still refuted - pinned by tests/cli/test_xargs.py: GNU -e takes only an attached argument *)
+Lemma xargs_e_refuted :
+  modelled (w ["xargs"; "-e"; "STOP"; "head"]) = Some (HWords [w ["head"; "{}"]] false) /\
+  wrapper_exec (w ["xargs"; "-e"; "STOP"; "head"]) = Some [w ["STOP"; "head"]].
+Proof. vm_compute. split; reflexivity. Qed.
+
 (* ================================================================== fd *)
-Lemma fd_extract_refuted :
-  modelled (w ["fd"; "-x"; "ls"; ";"; "-x"; "rm"]) = Some (HWords [w ["ls"; ";"; "-x"; "rm"]] false) /\
+Lemma fd_formerly_refuted :
+  modelled (w ["fd"; "-x"; "ls"; ";"; "-x"; "rm"]) = Some (HWords [w ["ls"]; w ["rm"]] false) /\
   wrapper_exec (w ["fd"; "-x"; "ls"; ";"; "-x"; "rm"]) = Some [w ["ls"]; w ["rm"]].
 Proof. vm_compute. split; reflexivity. Qed.
 
-(* ================================================================== env: option spellings *)
-Definition ENV_BOOL_WORDS : list str :=
-  map s2l ["-i"; "-v"; "-iv"; "-vi"; "-ivv"; "--ignore-environment"; "--debug"; "--list-signal-handling";
-           "--block-signal"; "--default-signal"; "--ignore-signal"; "--ignore-env"; "--deb"; "--list"].
-Definition ENV_SEP_FLAGS : list str := map s2l ["-u"; "--unset"; "-C"; "--chdir"].
-Definition ENV_UNSET_EQ : list str := map s2l ["--unset="; "--uns="].
-Definition ENV_CHDIR_EQ : list str := map s2l ["--chdir="; "--ch="].
-Definition name_ok (n : str) : bool := nonempty n && negb (mem_ch 61 n).
+(* ================================================================== suffix invariants: the inner command a handler
+   delegates is a suffix of the command line - never invented, reordered or re-assembled *)
+Definition suffix_of {A} (s l : list A) : Prop := exists p, l = p ++ s.
+Lemma suffix_refl {A} (l : list A) : suffix_of l l.
+Proof. exists []. reflexivity. Qed.
+Lemma suffix_cons {A} (x : A) s l : suffix_of s l -> suffix_of s (x :: l).
+Proof. intros [p ->]. exists (x :: p). reflexivity. Qed.
+Lemma suffix_nil {A} (l : list A) : suffix_of [] l.
+Proof. exists l. symmetry. apply app_nil_r. Qed.
+Lemma suffix_tl {A} (s l : list A) : suffix_of s l -> suffix_of (tl' s) l.
+Proof. intros [p ->]. destruct s as [|x s]; [apply suffix_nil|]. exists (p ++ [x]). rewrite <- app_assoc. reflexivity. Qed.
 
-(* env_opts ws unset : ws is a sequence of option words, unset collects the names given to -u/--unset *)
-Inductive env_opts : list str -> Prop :=
-| eo_nil : env_opts []
-| eo_bool b r : In b ENV_BOOL_WORDS -> env_opts r -> env_opts (b :: r)
-| eo_unset f v r : In f [s2l "-u"; s2l "--unset"] -> name_ok v = true -> env_opts r -> env_opts (f :: v :: r)
-| eo_chdir f v r : In f [s2l "-C"; s2l "--chdir"] -> env_opts r -> env_opts (f :: v :: r)
-| eo_unset_eq p v r : In p ENV_UNSET_EQ -> name_ok v = true -> env_opts r -> env_opts ((p ++ v) :: r)
-| eo_chdir_eq p v r : In p ENV_CHDIR_EQ -> env_opts r -> env_opts ((p ++ v) :: r)
-| eo_unset_att v r : name_ok v = true -> env_opts r -> env_opts ((s2l "-u" ++ v) :: r)
-| eo_chdir_att v r : v <> [] -> env_opts r -> env_opts ((s2l "-C" ++ v) :: r).
-
-(* ---- handler side *)
-Lemma env_scan_skip1 t r :
-  is "--" t = false -> mem_str t ENV_SPLIT_FLAGS = false -> prefixb SPLIT_EQ t = false ->
-  starts "-S" t = false -> mem_str t ENV_FLAGS_WITH_ARG = false -> dash t = true ->
-  env_scan (t :: r) = env_scan r.
-Proof. intros A B C D E F. cbn [env_scan]. rewrite A, B, C, D, E, F. reflexivity. Qed.
-
-Lemma env_bool_facts : forallb (fun t => negb (is "--" t) && negb (mem_str t ENV_SPLIT_FLAGS) && negb (prefixb SPLIT_EQ t)
-  && negb (starts "-S" t) && negb (mem_str t ENV_FLAGS_WITH_ARG) && dash t) ENV_BOOL_WORDS = true.
-Proof. vm_compute. reflexivity. Qed.
-Lemma env_sep_facts : forallb (fun t => negb (is "--" t) && negb (mem_str t ENV_SPLIT_FLAGS) && negb (prefixb SPLIT_EQ t)
-  && negb (starts "-S" t && Nat.ltb 2 (length t)) && mem_str t ENV_FLAGS_WITH_ARG) ENV_SEP_FLAGS = true.
-Proof. vm_compute. reflexivity. Qed.
-Lemma env_table_no_eq : forallb (fun e => negb (has_eq e)) ENV_FLAGS_WITH_ARG = true /\ forallb (fun e => negb (has_eq e)) ENV_SPLIT_FLAGS = true.
-Proof. split; vm_compute; reflexivity. Qed.
-Lemma env_att_facts : forallb (fun p => forallb (fun e => negb (prefixb p e) || str_eqb e p) ENV_FLAGS_WITH_ARG
-                                       && forallb (fun e => negb (prefixb p e) || str_eqb e p) ENV_SPLIT_FLAGS) [s2l "-u"; s2l "-C"] = true.
-Proof. vm_compute. reflexivity. Qed.
-
-Lemma env_scan_eq_word p v r :
-  In p (ENV_UNSET_EQ ++ ENV_CHDIR_EQ) -> env_scan ((p ++ v) :: r) = env_scan r.
+Lemma docker_opts_suffix l : suffix_of (docker_exec_opts l) l.
 Proof.
-  intro Hp. apply env_scan_skip1.
-  - apply is_ddash_long. rewrite app_length.
-    assert (F : forallb (fun p => Nat.ltb 2 (length p)) (ENV_UNSET_EQ ++ ENV_CHDIR_EQ) = true) by (vm_compute; reflexivity).
-    pose proof (proj1 (forallb_forall _ _) F p Hp) as E. cbv beta in E. apply Nat.ltb_lt in E. lia.
-  - apply mem_str_false_of_eq; [|exact (proj2 env_table_no_eq)]. apply has_eq_app_l.
-    assert (F : forallb has_eq (ENV_UNSET_EQ ++ ENV_CHDIR_EQ) = true) by (vm_compute; reflexivity).
-    exact (proj1 (forallb_forall _ _) F p Hp).
-  - repeat (destruct Hp as [<-|Hp]; [reflexivity|]). destruct Hp.
-  - repeat (destruct Hp as [<-|Hp]; [reflexivity|]). destruct Hp.
-  - apply mem_str_false_of_eq; [|exact (proj1 env_table_no_eq)]. apply has_eq_app_l.
-    assert (F : forallb has_eq (ENV_UNSET_EQ ++ ENV_CHDIR_EQ) = true) by (vm_compute; reflexivity).
-    exact (proj1 (forallb_forall _ _) F p Hp).
-  - apply dash_app. repeat (destruct Hp as [<-|Hp]; [reflexivity|]). destruct Hp.
+  induction l as [l IH] using list_len_ind.
+  destruct l as [|t r]; [apply suffix_refl|]. cbn [docker_exec_opts].
+  destruct (is "--" t); [apply suffix_cons, suffix_refl|].
+  destruct (mem_str t DOCKER_EXEC_FLAGS_WITH_ARG).
+  { destruct r as [|a r']; [apply suffix_nil|]. apply suffix_cons, suffix_cons, IH. cbn [length]. lia. }
+  destruct (starts "--" t); [apply suffix_cons, IH; cbn [length]; lia|].
+  destruct (dash t && Nat.ltb 1 (length t)); [|apply suffix_refl].
+  destruct (docker_cluster (tl' t)).
+  - destruct r as [|a r']; [apply suffix_nil|]. apply suffix_cons, suffix_cons, IH. cbn [length]. lia.
+  - apply suffix_cons, IH. cbn [length]. lia.
+Qed.
+Lemma docker_inner_suffix l : suffix_of (docker_exec_inner l) l.
+Proof. apply suffix_tl, docker_opts_suffix. Qed.
+
+Lemma after_ddash_suffix l : forall s, after_ddash l = Some s -> suffix_of s l.
+Proof.
+  induction l as [l IH] using list_len_ind. intros s H.
+  destruct l as [|t r]; [discriminate|]. cbn [after_ddash] in H.
+  destruct (is "--" t). { injection H as <-. apply suffix_cons, suffix_refl. }
+  destruct (dash t && negb (has_eq t) && negb (mem_str t KUBECTL_EXEC_BOOL_FLAGS)).
+  - destruct (negb (starts "--" t) && Nat.ltb 2 (length t) && mem_ch (nth 1 t 0) KC_ATTACH).
+    { apply suffix_cons, IH; [cbn [length]; lia|exact H]. }
+    destruct (negb (starts "--" t) && forallb (fun c => mem_ch c KC_BOOLS) (tl' t)).
+    { apply suffix_cons, IH; [cbn [length]; lia|exact H]. }
+    destruct r as [|a r']; [discriminate|]. apply suffix_cons, suffix_cons, IH; [cbn [length]; lia|exact H].
+  - apply suffix_cons, IH; [cbn [length]; lia|exact H].
 Qed.
 
-Lemma env_scan_att_word p v r :
-  In p [s2l "-u"; s2l "-C"] -> v <> [] -> env_scan ((p ++ v) :: r) = env_scan r.
+Lemma xargs_skip_suffix l : suffix_of (xargs_skip l) l.
 Proof.
-  intros Hp Hv.
-  pose proof (proj1 (forallb_forall _ _) env_att_facts p Hp) as F. cbv beta in F. apply andb_true_iff in F as [F1 F2].
-  apply env_scan_skip1.
-  - apply is_ddash_long. rewrite app_length. destruct v; [congruence|].
-    destruct Hp as [<-|[<-|[]]]; cbn; lia.
-  - apply mem_str_no_extension; assumption.
-  - destruct Hp as [<-|[<-|[]]]; reflexivity.
-  - destruct Hp as [<-|[<-|[]]]; reflexivity.
-  - apply mem_str_no_extension; assumption.
-  - apply dash_app. destruct Hp as [<-|[<-|[]]]; reflexivity.
-Qed.
-
-Lemma env_opts_handler opts : env_opts opts -> forall l, env_scan (opts ++ l) = env_scan l.
-Proof.
-  induction 1 as [|b r Hb _ IH|f v r Hf Hv _ IH|f v r Hf _ IH|p v r Hp Hv _ IH|p v r Hp _ IH|v r Hv _ IH|v r Hv _ IH]; intro l.
-  - reflexivity.
-  - pose proof (proj1 (forallb_forall _ _) env_bool_facts b Hb) as F. cbv beta in F.
-    rewrite !andb_true_iff, !negb_true_iff in F. destruct F as [[[[[F1 F2] F3] F4] F5] F6].
-    cbn [app]. rewrite env_scan_skip1 by assumption. apply IH.
-  - assert (Hf' : In f ENV_SEP_FLAGS) by (destruct Hf as [<-|[<-|[]]]; cbn; tauto).
-    pose proof (proj1 (forallb_forall _ _) env_sep_facts f Hf') as F. cbv beta in F.
-    rewrite !andb_true_iff, !negb_true_iff in F. destruct F as [[[[F1 F2] F3] F4] F5].
-    cbn [app env_scan]. rewrite F1, F2, F3, F4, F5. cbn [andb]. apply IH.
-  - assert (Hf' : In f ENV_SEP_FLAGS) by (destruct Hf as [<-|[<-|[]]]; cbn; tauto).
-    pose proof (proj1 (forallb_forall _ _) env_sep_facts f Hf') as F. cbv beta in F.
-    rewrite !andb_true_iff, !negb_true_iff in F. destruct F as [[[[F1 F2] F3] F4] F5].
-    cbn [app env_scan]. rewrite F1, F2, F3, F4, F5. cbn [andb]. apply IH.
-  - cbn [app]. rewrite env_scan_eq_word by (apply in_or_app; auto). apply IH.
-  - cbn [app]. rewrite env_scan_eq_word by (apply in_or_app; auto). apply IH.
-  - cbn [app]. rewrite env_scan_att_word; [apply IH|cbn; tauto|].
-    unfold name_ok in Hv. destruct v; [discriminate|discriminate].
-  - cbn [app]. rewrite env_scan_att_word; [apply IH|cbn; tauto|exact Hv].
-Qed.
-
-(* ---- specification side *)
-Definition okO (o : list gopt) : Prop :=
-  help_or_version o = false /\ env_opts_ok o = true /\ has_short (c1 "0") o = false /\ has_long (S "null") o = false.
-
-Lemma okO_nil : okO [].
-Proof. repeat split. Qed.
-
-Lemma okO_app a b : okO a -> okO b -> okO (a ++ b).
-Proof.
-  unfold okO, help_or_version, env_opts_ok, has_long, has_short, short_args, long_args.
-  intros (A1 & A2 & A3 & A4) (B1 & B2 & B3 & B4).
-  rewrite !existsb_app, !flat_map_app in *.
-  apply orb_false_iff in A1 as [A1 A1']. apply orb_false_iff in B1 as [B1 B1'].
-  apply andb_true_iff in A2 as [A2 A2']. apply andb_true_iff in B2 as [B2 B2'].
-  rewrite !forallb_app in *. apply andb_true_iff in A2 as [A2a A2b]. apply andb_true_iff in B2 as [B2a B2b].
-  apply andb_true_iff in A2' as [A2c A2d]. apply andb_true_iff in A2d as [A2d A2e].
-  apply andb_true_iff in B2' as [B2c B2d]. apply andb_true_iff in B2d as [B2d B2e].
-  rewrite A1, A1', B1, B1', A3, A4, B3, B4, A2a, A2b, B2a, B2b, A2c, A2d, A2e, B2c, B2d, B2e. repeat split.
-Qed.
-
-Notation gx := (getopt_x (fun _ => false) env_is_S env_spec).
-
-Lemma gcons_assoc a b k : gcons a (gcons b k) = gcons (a ++ b) k.
-Proof. destruct k; cbn [gcons]; rewrite ?app_assoc; reflexivity. Qed.
-
-Lemma okO_unset_s v : name_ok v = true -> okO [GS (c1 "u") (Some v)].
-Proof. intro H. unfold okO, name_ok in *. repeat split. unfold env_opts_ok. cbn. rewrite H. reflexivity. Qed.
-Lemma okO_unset_l v : name_ok v = true -> okO [GL (S "unset") (Some v)].
-Proof. intro H. unfold okO, name_ok in *. repeat split. unfold env_opts_ok. cbn. rewrite H. reflexivity. Qed.
-Lemma okO_chdir_s v : okO [GS (c1 "C") (Some v)].
-Proof. repeat split. Qed.
-Lemma okO_chdir_l v : okO [GL (S "chdir") (Some v)].
-Proof. repeat split. Qed.
-
-Lemma env_opts_spec opts : env_opts opts -> forall l, exists o, okO o /\ gx (opts ++ l) = gcons o (gx l).
-Proof.
-  induction 1 as [|b r Hb _ IH|f v r Hf Hv _ IH|f v r Hf _ IH|p v r Hp Hv _ IH|p v r Hp _ IH|v r Hv _ IH|v r Hv _ IH]; intro l.
-  - exists []. split; [exact okO_nil|]. cbn [app]. destruct (gx l); reflexivity.
-  - destruct (IH l) as (o & Ho & E). cbn [app].
-    assert (X : exists o1, okO o1 /\ forall rest, gx (b :: rest) = gcons o1 (gx rest)).
-    { repeat (destruct Hb as [<-|Hb]; [eexists; split; [|intro rest; reflexivity]; repeat split|]). destruct Hb. }
-    destruct X as (o1 & Ho1 & E1). exists (o1 ++ o). split; [apply okO_app; assumption|].
-    rewrite E1, E, gcons_assoc. reflexivity.
-  - destruct (IH l) as (o & Ho & E). cbn [app]. destruct Hf as [<-|[<-|[]]].
-    + exists ([GS (c1 "u") (Some v)] ++ o). split; [apply okO_app; [apply okO_unset_s, Hv|exact Ho]|].
-      rewrite <- gcons_assoc, <- E. reflexivity.
-    + exists ([GL (S "unset") (Some v)] ++ o). split; [apply okO_app; [apply okO_unset_l, Hv|exact Ho]|].
-      rewrite <- gcons_assoc, <- E. reflexivity.
-  - destruct (IH l) as (o & Ho & E). cbn [app]. destruct Hf as [<-|[<-|[]]].
-    + exists ([GS (c1 "C") (Some v)] ++ o). split; [apply okO_app; [apply okO_chdir_s|exact Ho]|].
-      rewrite <- gcons_assoc, <- E. reflexivity.
-    + exists ([GL (S "chdir") (Some v)] ++ o). split; [apply okO_app; [apply okO_chdir_l|exact Ho]|].
-      rewrite <- gcons_assoc, <- E. reflexivity.
-  - destruct (IH l) as (o & Ho & E). cbn [app].
-    exists ([GL (S "unset") (Some v)] ++ o). split; [apply okO_app; [apply okO_unset_l, Hv|exact Ho]|].
-    rewrite <- gcons_assoc, <- E. repeat (destruct Hp as [<-|Hp]; [reflexivity|]). destruct Hp.
-  - destruct (IH l) as (o & Ho & E). cbn [app].
-    exists ([GL (S "chdir") (Some v)] ++ o). split; [apply okO_app; [apply okO_chdir_l|exact Ho]|].
-    rewrite <- gcons_assoc, <- E. repeat (destruct Hp as [<-|Hp]; [reflexivity|]). destruct Hp.
-  - destruct (IH l) as (o & Ho & E). cbn [app].
-    exists ([GS (c1 "u") (Some v)] ++ o). split; [apply okO_app; [apply okO_unset_s, Hv|exact Ho]|].
-    rewrite <- gcons_assoc, <- E. destruct v; [discriminate|reflexivity].
-  - destruct (IH l) as (o & Ho & E). cbn [app].
-    exists ([GS (c1 "C") (Some v)] ++ o). split; [apply okO_app; [apply okO_chdir_s|exact Ho]|].
-    rewrite <- gcons_assoc, <- E. destruct v; [congruence|reflexivity].
-Qed.
-
-(* env OPTION... [NAME=VALUE]... COMMAND ARG... for all option spellings of env_opts *)
-Lemma env_extract_opts opts assigns c0 cs :
-  env_opts opts -> forallb assign_word assigns = true -> dash c0 = false -> has_eq c0 = false ->
-  env_h (s2l "env" :: opts ++ assigns ++ c0 :: cs) = HWords [c0 :: cs] false /\
-  env_exec (opts ++ assigns ++ c0 :: cs) = Some [c0 :: cs].
-Proof.
-  intros Ho Ha Hd He. split.
-  - unfold env_h. cbn [tl']. rewrite (env_opts_handler opts Ho).
-    exact (proj1 (env_extract assigns c0 cs Ha Hd He)).
-  - destruct (env_opts_spec opts Ho (assigns ++ c0 :: cs)) as (o & (O1 & O2 & O3 & O4) & E).
-    unfold env_exec. cbn [env_exec_f]. rewrite E.
-    assert (G : gx (assigns ++ c0 :: cs) = GOk [] (assigns ++ c0 :: cs)).
-    { destruct assigns as [|a r].
-      - cbn [app getopt_x]. rewrite (word_kind_operand c0 Hd). reflexivity.
-      - cbn [forallb] in Ha. apply andb_true_iff in Ha as [Ha _]. unfold assign_word in Ha.
-        apply andb_true_iff in Ha as [_ Ha]. apply negb_true_iff in Ha.
-        cbn [app getopt_x]. rewrite (word_kind_operand a Ha). reflexivity. }
-    rewrite G. cbn [gcons]. rewrite app_nil_r, O1, O2. cbn [negb].
-    assert (F : (match assigns ++ c0 :: cs with w0 :: r => if str_eqb w0 [45] then r else assigns ++ c0 :: cs | [] => [] end)
-                = assigns ++ c0 :: cs).
-    { destruct assigns as [|a r].
-      - cbn [app]. rewrite (dash_false_not_dashword c0 Hd). reflexivity.
-      - cbn [forallb] in Ha. apply andb_true_iff in Ha as [Ha _]. unfold assign_word in Ha.
-        apply andb_true_iff in Ha as [_ Ha]. apply negb_true_iff in Ha.
-        cbn [app]. rewrite (dash_false_not_dashword a Ha). reflexivity. }
-    rewrite F. rewrite drop_assign_app by exact Ha. cbn [drop_assign]. unfold has_eq in He. rewrite He.
-    rewrite O3, O4. reflexivity.
+  induction l as [l IH] using list_len_ind.
+  destruct l as [|t r]; [apply suffix_refl|]. cbn [xargs_skip].
+  destruct (is "--" t); [apply suffix_cons, suffix_refl|].
+  destruct (negb (dash t)); [apply suffix_refl|].
+  assert (S2 : suffix_of (match r with [] => [] | _ :: r' => xargs_skip r' end) (t :: r)).
+  { destruct r as [|a r']; [apply suffix_nil|]. apply suffix_cons, suffix_cons, IH. cbn [length]. lia. }
+  assert (S1 : suffix_of (xargs_skip r) (t :: r)) by (apply suffix_cons, IH; cbn [length]; lia).
+  destruct (mem_str t XARGS_FLAGS_WITH_ARG); [exact S2|].
+  destruct (starts "--" t).
+  - destruct (partition_eq (skipn 2 t)) as [name v].
+    destruct ((match long_names XARGS_LONG_OPTIONS name with [nm] => mem_str nm XARGS_LONG_WITH_ARG | _ => false end) && is_none v); assumption.
+  - destruct (xargs_cluster (tl' t)); assumption.
 Qed.
